@@ -21,8 +21,26 @@ variant that only serves to state the decidable input class `SegmentAligned`.
   the code before fix-c14-1/2, is gone.  Route: `pass_simple` (one pass of the tuple loop = the segment-wise
   matcher `simpleMatch`), `leaf_simple`, `patternTokens_simple` (the `to_axum_path` pattern of such a route is
   one token per segment), `simple_eq_lenient` (`simpleMatch` = token matcher with the trailing-slash
-  tolerance).  `C14_match_iff_flat_partial_general` is the statement over arbitrary optional-free route trees
-  — OPEN (checked by the correspondence run on every generated case, not proved).
+  tolerance).
+* `C14_match_iff_flat_partial_general` (PROVED, was OPEN): the same over arbitrary well-formed route
+  tables without optional params (nested routes, sibling lists, nested tuples, static / param /
+  wildcard-last, `""` and `"/"` segments, base) on every path with `SegmentAligned`; and
+  `C14_aligned_variant_holds`: the aligned variant satisfies the full statement on such tables.  Route:
+  `C14_tuple_nesting_flattens` (a segment tree = the flat list of its atoms, `seqTest`), `atom_aligned` /
+  `seq_aligned` (atoms at a segment boundary = `atomSpec`), `nested_aligned` / `children_aligned` /
+  `route_aligned` (route trees = the first registered flat route that accepts, `firstG` / `firstDefT`),
+  `gmatch_eq_tmatch`, `tmatch_eq_lenient`, `patternTokens_wf` (the flat side over tokens),
+  `strict_imp_gmatch` / `gmatch_imp_lenient` (strict table match ⊆ router-side acceptance ⊆ lenient table
+  match), `table_first` / `table_none`, `judge_aligned`.
+* `C14_match_iff_flat_optional_free` — UNCONDITIONAL: well-formed tables without optional params and without
+  `"/"` segments satisfy the full statement on every request path (`C14_aligned_without_slash_segments`: there the
+  router never leaves the segment grid); `C14_slash_parent_exact`: on optional-free tables every failure needs a
+  `"/"` segment in the table and a path with `¬SegmentAligned` — the class `slash-parent` (F-C14-2) is exact there.
+* `C14_build_then_match_nested` (nested routes of any depth, one child per level, every version of the code,
+  via `seq_build` / `build_nested`) and `C14_build_then_match_table` (whole tables with siblings and base: the
+  built path is matched by that definition or an earlier accepting one).
+* `C14_first_match_wins`: sibling lists — the first matching definition in declaration order wins, in
+  every version of the code.
 * `C14_build_then_match`: full for `SimpleF` segment lists.
 -/
 namespace Leptos.Router
@@ -1026,10 +1044,22 @@ theorem C14_expand_optionals (l : List FSeg) :
 
 /-! ### well-formed route definitions (decidable; what the generator produces) -/
 
-def plainStatics : List FSeg → Bool
-  | [] => true
-  | .st s :: r => decide (Plain s) && plainStatics r
-  | _ :: r => plainStatics r
+/-- atoms of well-formed routes: plain static text (as `path!` produces it), the two text-less
+statics `""` and `"/"`, params and wildcards with usable names (non-empty, no `/`) -/
+def WfA : FSeg → Prop
+  | .st s => Plain s ∨ s = [] ∨ s = ['/']
+  | .param n => Plain n
+  | .splat n => Plain n
+  | .opt _ => False
+
+instance : DecidablePred WfA := fun f => by cases f <;> unfold WfA <;> exact inferInstance
+
+/-- … optional params included -/
+def WfAO : FSeg → Prop
+  | .opt n => Plain n
+  | f => WfA f
+
+instance : DecidablePred WfAO := fun f => by cases f <;> unfold WfAO <;> exact inferInstance
 
 /-- a wildcard only as the last segment -/
 def splatLast : List FSeg → Bool
@@ -1046,7 +1076,7 @@ def noSplat : List FSeg → Bool
 mutual
 def Route.wf : Route → Bool
   | .mk segs children =>
-    (segs.gen == [.st []] || segs.gen == [.st ['/']] || plainStatics segs.gen) &&
+    segs.gen.all (fun f => decide (WfAO f)) &&
     (if children.isEmpty then splatLast segs.gen else noSplat segs.gen) && wfList children
 def wfList : List Route → Bool
   | [] => true
@@ -1058,7 +1088,7 @@ def baseOk : Option Path → Bool
   | some [] => true
   | some (c :: s) => c = '/' && decide (Plain s)
 
-/-- `WellFormed`: `SplatLast`, `PlainStatics` (or a whole route `""` / `"/"`), base `""` or `/x` -/
+/-- `WellFormed`: well-formed atoms (`WfAO`), a wildcard only as the last segment of a leaf, base `""` or `/x` -/
 def Defs.wf (d : Defs) : Bool := baseOk d.base && wfList d.tops && !d.tops.isEmpty
 
 /-- the property on one input: the oracle `judge` accepts what the router does -/
@@ -1225,14 +1255,6 @@ def noOptionalList : List Route → Bool
   | [] => true
   | c :: cs => c.noOptional && noOptionalList cs
 end
-
-/-- **match ⇔ flat, general partial statement — OPEN** (not proved).  Every divergence found on the
-real router lies outside it (`¬SegmentAligned` — after the repairs only a `"/"` segment followed by
-more, F-C14-2 — or an optional param somewhere); the correspondence run evaluates `Holds` on every
-generated case and reports any failure outside the listed classes. -/
-def C14_match_iff_flat_partial_general : Prop :=
-  ∀ (d : Defs) (path : Path), d.wf = true → startsSlash path = true → noOptionalList d.tops = true →
-    SegmentAligned d path → Holds d path
 
 /-! ## the partial theorem, proved for the simple sub-class -/
 
@@ -1813,6 +1835,2404 @@ theorem C14_simple_aligned_agrees (fs : List FSeg) (hs : ∀ g ∈ fs, SimpleN g
     subst hp
     rw [flatMatch_lenient fs hs hne t, simple_eq_lenient fs hs hne t]
 
+/-! # the general partial theorem: optional-free route trees -/
+
+
+/-! ## tuple nesting flattens -/
+
+/-- the segments of a flat list tested one after the other (what a tuple without optionals does) -/
+def seqTest (k : Ver) : List FSeg → Path → Out PM
+  | [], path => .some ⟨[], path, []⟩
+  | f :: fs, path =>
+    match (toSeg f).test k path with
+    | .panic => .panic
+    | .none => .none
+    | .some m =>
+      match seqTest k fs m.remaining with
+      | .some m' => .some ⟨m.matched ++ m'.matched, m'.remaining, m.params ++ m'.params⟩
+      | .none => .none
+      | .panic => .panic
+
+theorem seqTest_append (k : Ver) (a b : List FSeg) (path : Path) :
+    seqTest k (a ++ b) path =
+      match seqTest k a path with
+      | .some m =>
+        (match seqTest k b m.remaining with
+         | .some m' => .some ⟨m.matched ++ m'.matched, m'.remaining, m.params ++ m'.params⟩
+         | .none => .none
+         | .panic => .panic)
+      | .none => .none
+      | .panic => .panic := by
+  induction a generalizing path with
+  | nil =>
+    simp only [List.nil_append, seqTest]
+    cases seqTest k b path <;> simp
+  | cons f a ih =>
+    simp only [List.cons_append, seqTest]
+    cases (toSeg f).test k path with
+    | panic => rfl
+    | none => rfl
+    | some m =>
+      simp only [ih]
+      cases seqTest k a m.remaining with
+      | panic => rfl
+      | none => rfl
+      | some m1 =>
+        simp only
+        cases seqTest k b m1.remaining <;> simp [List.append_assoc]
+
+theorem seqTest_partition (k : Ver) : ∀ (fs : List FSeg) (path : Path) (m : PM),
+    seqTest k fs path = .some m → m.matched ++ m.remaining = path := by
+  intro fs
+  induction fs with
+  | nil => intro path m h; simp [seqTest] at h; subst h; rfl
+  | cons f fs ih =>
+    intro path m h
+    simp only [seqTest] at h
+    cases ht : (toSeg f).test k path with
+    | panic => simp [ht] at h
+    | none => simp [ht] at h
+    | some m1 =>
+      simp only [ht] at h
+      cases hs : seqTest k fs m1.remaining with
+      | panic => simp [hs] at h
+      | none => simp [hs] at h
+      | some m2 =>
+        simp [hs] at h; subst h
+        have h1 := test_partition k _ _ _ ht
+        have h2 := ih _ _ hs
+        simp [List.append_assoc, h2, h1]
+
+theorem countOpt_noOpt (l : List Seg) (h : anyOptional l = false) : countOpt l = 0 := by
+  induction l with
+  | nil => rfl
+  | cons a r ih =>
+    simp only [anyOptional, Bool.or_eq_false_iff] at h
+    simp [countOpt, h.1, ih h.2]
+
+theorem toSeg_gen_atom (k : Ver) (s : Seg) (path : Path) (f : FSeg) (hs : toSeg f = s) :
+    seqTest k [f] path = s.test k path := by
+  subst hs
+  simp only [seqTest]
+  cases (toSeg f).test k path <;> simp
+
+mutual
+theorem flatten_test (k : Ver) : ∀ (s : Seg) (path : Path), s.optional = false →
+    s.test k path = seqTest k s.gen path
+  | .st s, path, _ => (toSeg_gen_atom k (.st s) path (.st s) rfl).symm
+  | .param n, path, _ => (toSeg_gen_atom k (.param n) path (.param n) rfl).symm
+  | .opt n, path, h => by simp [Seg.optional] at h
+  | .splat n, path, _ => (toSeg_gen_atom k (.splat n) path (.splat n) rfl).symm
+  | .tup [], path, _ => by simp [Seg.test, Seg.gen, genSegs, seqTest]
+  | .tup [a], path, h => by
+    have ha : a.optional = false := by simpa [Seg.optional, anyOptional] using h
+    have ih := flatten_test k a path ha
+    simp only [Seg.test, Seg.gen, genSegs, List.append_nil]
+    rw [ih]
+    cases hs : seqTest k a.gen path with
+    | panic => rfl
+    | none => rfl
+    | some m =>
+      have hp := seqTest_partition k _ _ _ hs
+      have := splitBytes_bytes m.matched m.remaining
+      rw [hp] at this
+      simp [this]
+  | .tup (a :: b :: l), path, h => by
+    have hl : anyOptional (a :: b :: l) = false := by simpa [Seg.optional] using h
+    have hp := flatten_pass k (a :: b :: l) true 0 path 0 [] hl
+    simp only [Seg.test, countOpt_noOpt _ hl, backoff, hp, Seg.gen]
+    cases hs : seqTest k (genSegs (a :: b :: l)) path with
+    | panic => rfl
+    | none => rfl
+    | some m =>
+      have hpt := seqTest_partition k _ _ _ hs
+      have := splitBytes_bytes m.matched m.remaining
+      rw [hpt] at this
+      simp [this]
+theorem flatten_pass (k : Ver) : ∀ (l : List Seg) (first : Bool) (nth : Nat) (r : Path) (ml : Nat) (p : Params),
+    anyOptional l = false →
+    passFields k l first 0 nth r ml p =
+      match seqTest k (genSegs l) r with
+      | .some m => .done m.remaining (ml + bytes m.matched) (p ++ m.params)
+      | .none => .fail
+      | .panic => .panic
+  | [], first, nth, r, ml, p, _ => by simp [passFields, genSegs, seqTest, bytes]
+  | ty :: tys, first, nth, r, ml, p, h => by
+    simp only [anyOptional, Bool.or_eq_false_iff] at h
+    have iht := flatten_test k ty r h.1
+    simp only [passFields, h.1, Bool.false_eq_true, if_false, Bool.not_false, Bool.true_or, if_true, genSegs,
+      seqTest_append, iht]
+    cases hs : seqTest k ty.gen r with
+    | panic => rfl
+    | none => cases first <;> rfl
+    | some m =>
+      simp only
+      rw [flatten_pass k tys false nth m.remaining _ _ h.2]
+      cases seqTest k (genSegs tys) m.remaining <;> simp [bytes_append, Nat.add_assoc]
+end
+
+/-- **arbitrary tuple nesting has no effect on matching** (for segments without optional params):
+a segment tree behaves like the flat list of its atoms, in all three versions of the code. -/
+theorem C14_tuple_nesting_flattens (k : Ver) (s : Seg) (path : Path) (h : s.optional = false) :
+    s.test k path = seqTest k s.gen path := flatten_test k s path h
+
+/-- in particular two optional-free segment trees with the same atoms match alike -/
+theorem C14_same_atoms_same_match (k : Ver) (s t : Seg) (path : Path) (hs : s.optional = false)
+    (ht : t.optional = false) (h : s.gen = t.gen) : s.test k path = t.test k path := by
+  rw [flatten_test k s path hs, flatten_test k t path ht, h]
+
+
+/-! ## the atoms of a well-formed route, in the aligned variant -/
+
+/-- what an atom consumes at a segment boundary: `(remaining, params)` -/
+def atomSpec : FSeg → Path → Option (Path × Params)
+  | .st s, [] => if s = [] then some ([], []) else none
+  | .st s, c :: t =>
+    if c = '/' then
+      (if s = [] then some (c :: t, [])
+       else if s = ['/'] then some (t, [])
+       else if segHead t = s then some (segTail t, []) else none)
+    else none
+  | .param _, [] => none
+  | .param n, c :: t => if c = '/' ∧ segHead t ≠ [] then some (segTail t, [(n, segHead t)]) else none
+  | .splat n, [] => some ([], [(n, [])])
+  | .splat n, c :: t => if c = '/' then some ([], [(n, t)]) else none
+  | .opt _, _ => none
+
+/-- forget `matched` -/
+def Out.rp : Out PM → Out (Path × Params)
+  | .some m => .some (m.remaining, m.params)
+  | .none => .none
+  | .panic => .panic
+
+def ofOpt {α : Type} : Option α → Out α
+  | some a => .some a
+  | none => .none
+
+theorem splatTest_slash (n t : Path) : splatTest true n ('/' :: t) = .some ⟨'/' :: t, [], [(n, t)]⟩ := by
+  have h1 : splitBytes ('/' :: t) (1 + bytes t) = some ('/' :: t, []) := by
+    have := splitBytes_bytes ('/' :: t) []
+    simpa [bytes, slash_size] using this
+  have h2 : sliceBytes ('/' :: t) 1 (bytes t + 1) = some t := by
+    unfold sliceBytes
+    have h3 : splitBytes ('/' :: t) 1 = some (['/'], t) := by
+      have := splitBytes_bytes ['/'] t
+      simpa [bytes, slash_size] using this
+    have h4 : splitBytes t (bytes t) = some (t, []) := by
+      have := splitBytes_bytes t []
+      simpa using this
+    simp [h3, h4]
+  unfold splatTest
+  simp [splatScan, h1, h2]
+
+theorem splatTest_nil (fx : Bool) (n : Path) : splatTest fx n [] = .some ⟨[], [], [(n, [])]⟩ := by
+  simp [splatTest, splatScan, splitBytes, sliceBytes]
+
+theorem staticTest_empty (fx : Bool) (path : Path) (h : Aligned path) :
+    staticTest fx [] path = .some ⟨[], path, []⟩ := by
+  cases path with
+  | nil => simp [staticTest, staticLoop, splitBytes]
+  | cons c t =>
+    have hc : c = '/' := by
+      rcases h with h | h
+      · simp at h
+      · simpa [startsSlash] using h
+    subst hc
+    unfold staticTest
+    cases t <;> simp [staticLoop, splitBytes]
+
+theorem staticTest_slashseg (fx : Bool) (t : Path) :
+    staticTest fx ['/'] ('/' :: t) = .some ⟨['/'], t, []⟩ := by
+  have h1 : splitBytes ('/' :: t) 1 = some (['/'], t) := by
+    have := splitBytes_bytes ['/'] t
+    simpa [bytes, slash_size] using this
+  unfold staticTest
+  cases t <;> simp [staticLoop, h1]
+
+theorem staticTest_slashseg_nil (fx : Bool) : staticTest fx ['/'] [] = .none := by
+  simp [staticTest, staticLoop]
+
+theorem startOk_aligned (path : Path) : startOk .aligned path = decide (Aligned path) := by
+  cases path with
+  | nil => simp [startOk, Aligned]
+  | cons c t => simp [startOk, Aligned, startsSlash]
+
+/-- every atom of a well-formed route, in the aligned variant, is `atomSpec` (and never panics) -/
+theorem atom_aligned (f : FSeg) (hw : WfA f) (path : Path) :
+    ((toSeg f).test .aligned path).rp = ofOpt (atomSpec f path) := by
+  cases path with
+  | nil =>
+    cases f with
+    | st s =>
+      rcases hw with hp | rfl | rfl
+      · have : s ≠ [] := hp.1
+        simp [toSeg, Seg.test, startOk, Ver.fixed, staticTest_nil _ s hp, atomSpec, this, Out.rp, ofOpt]
+      · simp [toSeg, Seg.test, startOk, Ver.fixed, staticTest_empty _ [] (Or.inl rfl), atomSpec, Out.rp, ofOpt]
+      · simp [toSeg, Seg.test, startOk, Ver.fixed, staticTest_slashseg_nil, atomSpec, Out.rp, ofOpt]
+    | param n => simp [toSeg, Seg.test, startOk, Ver.fixed, paramTest_nil, atomSpec, Out.rp, ofOpt]
+    | splat n => simp [toSeg, Seg.test, startOk, Ver.fixed, splatTest_nil, atomSpec, Out.rp, ofOpt]
+    | opt n => simp [WfA] at hw
+  | cons c t =>
+    by_cases hc : c = '/'
+    · subst hc
+      cases f with
+      | st s =>
+        rcases hw with hp | rfl | rfl
+        · have h1 : s ≠ [] := hp.1
+          have h2 : s ≠ ['/'] := by intro h; rw [h] at hp; exact hp.2 (by simp)
+          simp only [toSeg, Seg.test, startOk, startsSlash, decide_true, Bool.or_true, if_true, Ver.fixed,
+            C14_static_is_whole_segment s t hp, atomSpec, h1, h2, if_false]
+          by_cases he : segHead t = s <;> simp [he, Out.rp, ofOpt]
+        · simp [toSeg, Seg.test, startOk, startsSlash, Ver.fixed,
+            staticTest_empty _ ('/' :: t) (Or.inr rfl), atomSpec, Out.rp, ofOpt]
+        · simp [toSeg, Seg.test, startOk, startsSlash, Ver.fixed, staticTest_slashseg, atomSpec, Out.rp, ofOpt]
+      | param n =>
+        simp only [toSeg, Seg.test, startOk, startsSlash, decide_true, Bool.or_true, if_true, Ver.fixed,
+          paramTest_slash, atomSpec, true_and]
+        by_cases he : segHead t = [] <;> simp [he, Out.rp, ofOpt]
+      | splat n =>
+        simp [toSeg, Seg.test, startOk, startsSlash, Ver.fixed, splatTest_slash, atomSpec, Out.rp, ofOpt]
+      | opt n => simp [WfA] at hw
+    · have hst : startOk .aligned (c :: t) = false := by simp [startOk, startsSlash, hc]
+      cases f with
+      | st s => simp [toSeg, Seg.test, hst, atomSpec, hc, Out.rp, ofOpt]
+      | param n => simp [toSeg, Seg.test, hst, atomSpec, hc, Out.rp, ofOpt]
+      | splat n => simp [toSeg, Seg.test, hst, atomSpec, hc, Out.rp, ofOpt]
+      | opt n => simp [WfA] at hw
+
+/-- the atoms of a flat list one after the other: `(remaining, params)` -/
+def seqSpec : List FSeg → Path → Option (Path × Params)
+  | [], path => some (path, [])
+  | f :: fs, path =>
+    match atomSpec f path with
+    | none => none
+    | some (r, ps) =>
+      match seqSpec fs r with
+      | none => none
+      | some (r', ps') => some (r', ps ++ ps')
+
+theorem seq_aligned : ∀ (fs : List FSeg), (∀ f ∈ fs, WfA f) → ∀ path : Path,
+    (seqTest .aligned fs path).rp = ofOpt (seqSpec fs path) := by
+  intro fs
+  induction fs with
+  | nil => intro _ path; simp [seqTest, seqSpec, Out.rp, ofOpt]
+  | cons f fs ih =>
+    intro hs path
+    have ha := atom_aligned f (hs f (by simp)) path
+    have ih' := ih (fun x hx => hs x (by simp [hx]))
+    simp only [seqTest, seqSpec]
+    cases ht : (toSeg f).test .aligned path with
+    | panic => rw [ht] at ha; cases hsp : atomSpec f path <;> simp [hsp, Out.rp, ofOpt] at ha
+    | none =>
+      rw [ht] at ha
+      cases hsp : atomSpec f path with
+      | none => simp [Out.rp, ofOpt]
+      | some x => simp [hsp, Out.rp, ofOpt] at ha
+    | some m =>
+      rw [ht] at ha
+      cases hsp : atomSpec f path with
+      | none => simp [hsp, Out.rp, ofOpt] at ha
+      | some x =>
+        obtain ⟨r, ps⟩ := x
+        simp [hsp, Out.rp, ofOpt] at ha
+        obtain ⟨h1, h2⟩ := ha
+        have := ih' m.remaining
+        simp only [h1] at this ⊢
+        cases hq : seqTest .aligned fs r with
+        | panic => rw [hq] at this; cases hs2 : seqSpec fs r <;> simp [hs2, Out.rp, ofOpt] at this
+        | none =>
+          rw [hq] at this
+          cases hs2 : seqSpec fs r with
+          | none => simp [Out.rp, ofOpt]
+          | some y => simp [hs2, Out.rp, ofOpt] at this
+        | some m2 =>
+          rw [hq] at this
+          cases hs2 : seqSpec fs r with
+          | none => simp [hs2, Out.rp, ofOpt] at this
+          | some y =>
+            obtain ⟨r2, ps2⟩ := y
+            simp [hs2, Out.rp, ofOpt] at this
+            simp [Out.rp, ofOpt, this.1, this.2, h2]
+
+
+
+/-! ## optional-free route trees in the aligned variant = first flat route that matches -/
+
+theorem seqSpec_append (a b : List FSeg) (path : Path) :
+    seqSpec (a ++ b) path =
+      match seqSpec a path with
+      | none => none
+      | some (r, ps) =>
+        match seqSpec b r with
+        | none => none
+        | some (r', ps') => some (r', ps ++ ps') := by
+  induction a generalizing path with
+  | nil =>
+    simp only [List.nil_append, seqSpec]
+    cases seqSpec b path with
+    | none => rfl
+    | some x => obtain ⟨r, ps⟩ := x; simp
+  | cons f a ih =>
+    simp only [List.cons_append, seqSpec]
+    cases atomSpec f path with
+    | none => rfl
+    | some x =>
+      obtain ⟨r, ps⟩ := x
+      simp only [ih]
+      cases seqSpec a r with
+      | none => rfl
+      | some y =>
+        obtain ⟨r1, ps1⟩ := y
+        simp only
+        cases seqSpec b r1 with
+        | none => rfl
+        | some z => obtain ⟨r2, ps2⟩ := z; simp [List.append_assoc]
+
+/-- a flat route accepts the path: all atoms in sequence, then nothing or one `/` left -/
+def gmatch (f : List FSeg) (path : Path) : Option Params :=
+  match seqSpec f path with
+  | some (r, ps) => if complete r then some ps else none
+  | none => none
+
+def firstG : List (List FSeg) → Path → Option Params
+  | [], _ => none
+  | f :: fs, path =>
+    match gmatch f path with
+    | some ps => some ps
+    | none => firstG fs path
+
+/-- the first definition (index from `i`) one of whose flat routes accepts the path -/
+def firstDef : List Route → Nat → Path → Option (Nat × Params)
+  | [], _, _ => none
+  | c :: cs, i, path =>
+    match firstG c.gen path with
+    | some ps => some (i, ps)
+    | none => firstDef cs (i + 1) path
+
+theorem gmatch_append (a b : List FSeg) (path : Path) :
+    gmatch (a ++ b) path =
+      match seqSpec a path with
+      | none => none
+      | some (r, ps) => (gmatch b r).map (ps ++ ·) := by
+  unfold gmatch
+  rw [seqSpec_append]
+  cases seqSpec a path with
+  | none => rfl
+  | some x =>
+    obtain ⟨r, ps⟩ := x
+    simp only
+    cases seqSpec b r with
+    | none => rfl
+    | some y =>
+      obtain ⟨r1, ps1⟩ := y
+      simp only
+      split <;> simp
+
+theorem firstG_prefix (a : List FSeg) (fs : List (List FSeg)) (path : Path) :
+    firstG (prefixAll a fs) path =
+      match seqSpec a path with
+      | none => none
+      | some (r, ps) => (firstG fs r).map (ps ++ ·) := by
+  induction fs with
+  | nil => simp only [prefixAll, firstG]; cases seqSpec a path with
+    | none => rfl
+    | some x => obtain ⟨r, ps⟩ := x; rfl
+  | cons f fs ih =>
+    simp only [prefixAll, firstG, gmatch_append, ih]
+    cases seqSpec a path with
+    | none => rfl
+    | some x =>
+      obtain ⟨r, ps⟩ := x
+      simp only
+      cases gmatch f r <;> simp
+
+theorem firstG_append (a b : List (List FSeg)) (path : Path) :
+    firstG (a ++ b) path = match firstG a path with | some ps => some ps | none => firstG b path := by
+  induction a with
+  | nil => rfl
+  | cons f a ih =>
+    simp only [List.cons_append, firstG, ih]
+    cases gmatch f path <;> rfl
+
+theorem firstG_genList (cs : List Route) (i : Nat) (path : Path) :
+    firstG (genList cs) path = (firstDef cs i path).map (·.2) := by
+  induction cs generalizing i with
+  | nil => rfl
+  | cons c cs ih =>
+    simp only [genList, firstG_append, firstDef]
+    cases firstG c.gen path with
+    | some ps => rfl
+    | none => exact ih (i + 1)
+
+def nres : NOut → Out (Option Nat × Params)
+  | .some m _ => .some (m.chain.head?.map (·.1), m.params)
+  | .none => .none
+  | .panic => .panic
+
+theorem finish_complete (pos : Nat) (matched : Path) (params : Params) (inner : Option NMatch) (remaining : Path)
+    (m : NMatch) (rem : Path) (h : finish pos matched params inner remaining = .some m rem) :
+    rem = remaining ∧ complete rem = true := by
+  have := finish_some pos matched params inner remaining m rem h
+  exact ⟨this.1, this.2.1⟩
+
+mutual
+/-- what `match_nested` hands back as `remaining` is always `""` or `"/"` -/
+theorem nested_rem_complete (k : Ver) : ∀ (r : Route) (pos : Nat) (path : Path) (m : NMatch) (rem : Path),
+    matchNested k r pos path = .some m rem → complete rem = true
+  | .mk segs children, pos, path, m, rem, h => by
+    simp only [matchNested] at h
+    cases hs : segs.test k path with
+    | panic => rw [hs] at h; simp at h
+    | none => rw [hs] at h; simp at h
+    | some pm =>
+      rw [hs] at h; simp only at h
+      split at h
+      · exact (finish_complete _ _ _ _ _ _ _ h).2
+      · cases hc : matchChildren k children 0 pm.remaining with
+        | panic => rw [hc] at h; simp at h
+        | some inner rem' =>
+          rw [hc] at h; simp only at h
+          exact (finish_complete _ _ _ _ _ _ _ h).2
+        | none =>
+          rw [hc] at h; simp only at h
+          split at h
+          · cases hc2 : matchChildren k children 0 path with
+            | panic => rw [hc2] at h; simp at h
+            | none => rw [hc2] at h; simp at h
+            | some inner rem' =>
+              rw [hc2] at h; simp only at h
+              cases hs2 : segs.test k (trimEnd (innerMatched inner ++ rem') path) with
+              | some np => rw [hs2] at h; simp only at h; exact (finish_complete _ _ _ _ _ _ _ h).2
+              | none => rw [hs2] at h; simp only at h; split at h <;> simp at h
+              | panic => rw [hs2] at h; simp at h
+          · simp at h
+theorem children_rem_complete (k : Ver) : ∀ (cs : List Route) (i : Nat) (path : Path) (m : NMatch) (rem : Path),
+    matchChildren k cs i path = .some m rem → complete rem = true
+  | [], i, path, m, rem, h => by simp [matchChildren] at h
+  | c :: cs, i, path, m, rem, h => by
+    simp only [matchChildren] at h
+    cases hc : matchNested k c i path with
+    | panic => rw [hc] at h; simp at h
+    | some m' rem' =>
+      rw [hc] at h; simp at h; obtain ⟨rfl, rfl⟩ := h
+      exact nested_rem_complete k c i path _ _ hc
+    | none =>
+      rw [hc] at h; simp only at h
+      exact children_rem_complete k cs (i + 1) path m rem h
+end
+
+mutual
+/-- optional-free routes whose atoms are well-formed -/
+def Route.good : Route → Bool
+  | .mk segs children => !segs.optional && segs.gen.all (fun f => decide (WfA f)) && goodList children
+def goodList : List Route → Bool
+  | [] => true
+  | c :: cs => c.good && goodList cs
+end
+
+theorem finish_nres (pos : Nat) (matched : Path) (params : Params) (inner : Option NMatch) (rem : Path)
+    (hc : complete rem = true) :
+    nres (finish pos matched params inner rem) =
+      .some (some pos, params ++ (match inner with | some i => i.params | none => [])) := by
+  unfold finish
+  cases inner <;> simp [hc, nres]
+
+mutual
+theorem nested_aligned : ∀ (r : Route), r.good = true → ∀ (pos : Nat) (path : Path),
+    nres (matchNested .aligned r pos path) =
+      match firstG r.gen path with
+      | some ps => .some (some pos, ps)
+      | none => .none
+  | .mk segs children, hg, pos, path => by
+    simp only [Route.good, Bool.and_eq_true, Bool.not_eq_true', List.all_eq_true, decide_eq_true_eq] at hg
+    obtain ⟨⟨hopt, hwf⟩, hch⟩ := hg
+    have hflat := flatten_test .aligned segs path hopt
+    have hseq := seq_aligned segs.gen hwf path
+    simp only [matchNested, Route.gen, hflat]
+    cases hT : seqTest .aligned segs.gen path with
+    | panic => rw [hT] at hseq; cases hsp : seqSpec segs.gen path <;> simp [hsp, Out.rp, ofOpt] at hseq
+    | none =>
+      rw [hT] at hseq
+      cases hsp : seqSpec segs.gen path with
+      | some x => simp [hsp, Out.rp, ofOpt] at hseq
+      | none =>
+        simp only [nres]
+        by_cases hce : children.isEmpty = true
+        · simp [hce, firstG, gmatch, hsp]
+        · simp [hce, firstG_prefix, hsp]
+    | some pm =>
+      rw [hT] at hseq
+      cases hsp : seqSpec segs.gen path with
+      | none => simp [hsp, Out.rp, ofOpt] at hseq
+      | some x =>
+        obtain ⟨r, ps⟩ := x
+        simp [hsp, Out.rp, ofOpt] at hseq
+        obtain ⟨hr, hps⟩ := hseq
+        simp only
+        by_cases hce : children.isEmpty = true
+        · simp only [hce, if_true, firstG, gmatch, hsp]
+          unfold finish
+          rw [hr, hps]
+          by_cases hcomp : complete r = true <;> simp [hcomp, nres]
+        · simp only [hce, Bool.false_eq_true, if_false, firstG_prefix, hsp, firstG_genList children 0]
+          have ihc := children_aligned children hch 0 pm.remaining
+          rw [hr] at ihc ⊢
+          cases hmc : matchChildren .aligned children 0 r with
+          | panic => rw [hmc] at ihc; cases hfd : firstDef children 0 r <;> simp [hfd, nres] at ihc
+          | none =>
+            rw [hmc] at ihc
+            cases hfd : firstDef children 0 r with
+            | some y => simp [hfd, nres] at ihc
+            | none => simp [hopt, nres]
+          | some inner rem =>
+            rw [hmc] at ihc
+            have hcomp := children_rem_complete .aligned children 0 r inner rem hmc
+            cases hfd : firstDef children 0 r with
+            | none => simp [hfd, nres] at ihc
+            | some y =>
+              obtain ⟨j, ps'⟩ := y
+              simp [hfd, nres] at ihc
+              simp only
+              rw [finish_nres _ _ _ _ _ hcomp]
+              simp [hps, ihc.2]
+theorem children_aligned : ∀ (cs : List Route), goodList cs = true → ∀ (i : Nat) (path : Path),
+    nres (matchChildren .aligned cs i path) =
+      match firstDef cs i path with
+      | some (j, ps) => .some (some j, ps)
+      | none => .none
+  | [], _, i, path => by simp [matchChildren, firstDef, nres]
+  | c :: cs, hg, i, path => by
+    simp only [goodList, Bool.and_eq_true] at hg
+    have ih := nested_aligned c hg.1 i path
+    simp only [matchChildren, firstDef]
+    cases hm : matchNested .aligned c i path with
+    | panic => rw [hm] at ih; cases hf : firstG c.gen path <;> simp [hf, nres] at ih
+    | some m rem =>
+      rw [hm] at ih
+      cases hf : firstG c.gen path with
+      | none => simp [hf, nres] at ih
+      | some ps => simp [hf, nres] at ih; simp [nres, ih]
+    | none =>
+      rw [hm] at ih
+      cases hf : firstG c.gen path with
+      | some ps => simp [hf, nres] at ih
+      | none => simp only; exact children_aligned cs hg.2 (i + 1) path
+end
+
+
+
+/-! ## the flat side: tokens of a well-formed flat route -/
+
+/-- the token a segment contributes to the registered pattern (`""` contributes none, `"/"` an empty one) -/
+def tokOfG : FSeg → Option Tok
+  | .st s => if s = [] then none else if s = ['/'] then some (.lit []) else some (.lit s)
+  | .param n => some (.par n)
+  | .splat n => some (.spl n)
+  | .opt _ => some .bad
+
+def toksG : List FSeg → List Tok
+  | [] => []
+  | f :: fs => (match tokOfG f with | some t => [t] | none => []) ++ toksG fs
+
+/-- segment-wise matcher on characters for a token list: every token consumes `/` + one whole
+`/`-separated piece of the path, a wildcard the rest; at the end nothing or a single `/` may be left -/
+def tmatch : List Tok → Path → Option Params
+  | [], r => if complete r then some [] else none
+  | .spl n :: _, [] => some [(n, [])]
+  | .spl n :: _, c :: t => if c = '/' then some [(n, t)] else none
+  | .lit _ :: _, [] => none
+  | .lit s :: toks, c :: t => if c = '/' then (if s = segHead t then tmatch toks (segTail t) else none) else none
+  | .par _ :: _, [] => none
+  | .par n :: toks, c :: t =>
+    if c = '/' then (if (segHead t).isEmpty then none else (tmatch toks (segTail t)).map ((n, segHead t) :: ·)) else none
+  | .bad :: _, _ => none
+
+theorem tmatch_unaligned (toks : List Tok) (r : Path) (h1 : r ≠ []) (h2 : startsSlash r = false) :
+    tmatch toks r = none := by
+  cases r with
+  | nil => simp at h1
+  | cons c t =>
+    have hc : c ≠ '/' := by simpa [startsSlash] using h2
+    cases toks with
+    | nil => simp [tmatch, complete, hc]
+    | cons tok toks => cases tok <;> simp [tmatch, hc]
+
+theorem gmatch_unaligned (F : List FSeg) (r : Path) (h1 : r ≠ []) (h2 : startsSlash r = false) :
+    gmatch F r = none := by
+  cases r with
+  | nil => simp at h1
+  | cons c t =>
+    have hc : c ≠ '/' := by simpa [startsSlash] using h2
+    cases F with
+    | nil => simp [gmatch, seqSpec, complete, hc]
+    | cons f F => cases f <;> simp [gmatch, seqSpec, atomSpec, hc]
+
+theorem gmatch_cons (f : FSeg) (F : List FSeg) (path : Path) :
+    gmatch (f :: F) path = match atomSpec f path with
+      | none => none
+      | some (r, ps) => (gmatch F r).map (ps ++ ·) := by
+  have := gmatch_append [f] F path
+  simp only [List.singleton_append] at this
+  rw [this]
+  simp only [seqSpec]
+  cases atomSpec f path with
+  | none => rfl
+  | some x => obtain ⟨r, ps⟩ := x; simp
+
+theorem segHead_nil_iff (t : Path) : segHead t = [] ↔ Aligned t := by
+  cases t with
+  | nil => simp [segHead, Aligned]
+  | cons c t =>
+    by_cases hc : c = '/'
+    · simp [segHead, Aligned, startsSlash, hc]
+    · simp [segHead, Aligned, startsSlash, hc]
+
+theorem segTail_of_aligned (t : Path) (h : Aligned t) : segTail t = t := by
+  cases t with
+  | nil => rfl
+  | cons c t =>
+    rcases h with h | h
+    · simp at h
+    · have : c = '/' := by simpa [startsSlash] using h
+      simp [segTail, this]
+
+/-- (F3) a well-formed flat route accepts a path iff its token list does, on characters -/
+theorem gmatch_eq_tmatch : ∀ (F : List FSeg), (∀ f ∈ F, WfA f) → splatLast F = true → ∀ path : Path,
+    gmatch F path = tmatch (toksG F) path := by
+  intro F
+  induction F with
+  | nil => intro _ _ path; simp [gmatch, seqSpec, toksG, tmatch]
+  | cons f F ih =>
+    intro hw hsl path
+    have hf := hw f (by simp)
+    have hw' : ∀ g ∈ F, WfA g := fun x hx => hw x (by simp [hx])
+    have hsl' : splatLast F = true := by
+      cases F with
+      | nil => rfl
+      | cons g G => cases f <;> simp [splatLast] at hsl ⊢ <;> exact hsl
+    have ih' := ih hw' hsl'
+    rw [gmatch_cons]
+    cases f with
+    | opt n => simp [WfA] at hf
+    | st s =>
+      rcases hf with hp | rfl | rfl
+      · -- plain text
+        have h1 : s ≠ [] := hp.1
+        have h2 : s ≠ ['/'] := by intro h; rw [h] at hp; exact hp.2 (by simp)
+        simp only [toksG, tokOfG, h1, h2, if_false, List.singleton_append]
+        cases path with
+        | nil => simp [atomSpec, h1, tmatch]
+        | cons c t =>
+          by_cases hc : c = '/'
+          · subst hc
+            simp only [atomSpec, if_true, h1, h2, if_false, tmatch]
+            by_cases he : segHead t = s
+            · simp [he, ih']
+            · have : ¬ s = segHead t := fun h => he h.symm
+              simp [he, this]
+          · simp [atomSpec, hc, tmatch]
+      · -- ""
+        simp only [toksG, tokOfG, if_true, List.nil_append]
+        cases path with
+        | nil => simp [atomSpec, ih']
+        | cons c t =>
+          by_cases hc : c = '/'
+          · subst hc; simp [atomSpec, ih']
+          · have hu := tmatch_unaligned (toksG F) (c :: t) (by simp) (by simp [startsSlash, hc])
+            simp [atomSpec, hc, hu]
+      · -- "/"
+        have h0 : (['/'] : Path) ≠ [] := by simp
+        simp only [toksG, tokOfG, h0, if_false, if_true, List.singleton_append]
+        cases path with
+        | nil => simp [atomSpec, tmatch]
+        | cons c t =>
+          by_cases hc : c = '/'
+          · subst hc
+            simp only [atomSpec, if_true, h0, if_false, tmatch]
+            by_cases he : segHead t = []
+            · have hal := (segHead_nil_iff t).1 he
+              simp [he, segTail_of_aligned t hal, ih']
+            · have hna : ¬ Aligned t := fun h => he ((segHead_nil_iff t).2 h)
+              have h1 : t ≠ [] := fun h => hna (Or.inl h)
+              have h2 : startsSlash t = false := by
+                cases hss : startsSlash t
+                · rfl
+                · exact absurd (Or.inr hss) hna
+              have : ¬ ([] : Path) = segHead t := fun h => he h.symm
+              simp [gmatch_unaligned F t h1 h2, this]
+          · simp [atomSpec, hc, tmatch]
+    | param n =>
+      simp only [toksG, tokOfG, List.singleton_append]
+      cases path with
+      | nil => simp [atomSpec, tmatch]
+      | cons c t =>
+        by_cases hc : c = '/'
+        · subst hc
+          simp only [atomSpec, true_and, tmatch, if_true]
+          by_cases he : segHead t = []
+          · simp [he]
+          · have : (segHead t).isEmpty = false := by cases hh : segHead t <;> simp_all
+            simp [he, this, ih']
+        · simp [atomSpec, hc, tmatch]
+    | splat n =>
+      have hF : F = [] := by
+        cases F with
+        | nil => rfl
+        | cons g G => simp [splatLast] at hsl
+      subst hF
+      simp only [toksG, tokOfG, List.singleton_append]
+      cases path with
+      | nil => simp [atomSpec, tmatch, gmatch, seqSpec, complete]
+      | cons c t =>
+        by_cases hc : c = '/'
+        · subst hc; simp [atomSpec, tmatch, gmatch, seqSpec, complete]
+        · simp [atomSpec, hc, tmatch]
+
+
+
+/-! ### token matcher on characters = token matcher on the `/`-split, with the trailing-slash tolerance -/
+
+/-- literal and param tokens, a wildcard only at the end -/
+def tokOk : List Tok → Bool
+  | [] => true
+  | [.spl _] => true
+  | .lit _ :: r => tokOk r
+  | .par _ :: r => tokOk r
+  | _ => false
+
+def checkT (tok : Tok) (h : Path) (X : Option Params) : Option Params :=
+  match tok with
+  | .lit s => if s = h then X else none
+  | .par n => if h.isEmpty then none else X.map ((n, h) :: ·)
+  | _ => none
+
+theorem checkT_none (tok : Tok) (h : Path) : checkT tok h none = none := by
+  cases tok <;> simp [checkT]
+
+theorem checkT_orE (tok : Tok) (h : Path) (A B : Option Params) :
+    checkT tok h (orE A B) = orE (checkT tok h A) (checkT tok h B) := by
+  cases tok with
+  | lit s => by_cases e : s = h <;> simp [checkT, e, orE]
+  | par n => cases hh : h.isEmpty <;> cases A <;> simp [checkT, hh, orE]
+  | spl n => simp [checkT, orE]
+  | bad => simp [checkT, orE]
+
+/-- whether the check passes does not depend on what follows -/
+theorem checkT_fail (tok : Tok) (h : Path) (a : Params) (hn : checkT tok h (some a) = none) (X : Option Params) :
+    checkT tok h X = none := by
+  cases tok with
+  | lit s => by_cases e : s = h <;> simp [checkT, e] at hn ⊢
+  | par n => cases hh : h.isEmpty <;> simp [checkT, hh] at hn ⊢
+  | spl n => simp [checkT]
+  | bad => simp [checkT]
+
+def isLP : Tok → Bool
+  | .lit _ => true
+  | .par _ => true
+  | _ => false
+
+theorem tmatch_cons (tok : Tok) (toks : List Tok) (t : Path) (h : isLP tok = true) :
+    tmatch (tok :: toks) ('/' :: t) = checkT tok (segHead t) (tmatch toks (segTail t)) := by
+  cases tok <;> simp [isLP] at h <;> simp [tmatch, checkT]
+
+theorem tokMatch_cons (tok : Tok) (toks : List Tok) (h : Path) (ts : List Path) (hl : isLP tok = true) :
+    tokMatch (tok :: toks) (h :: ts) = checkT tok h (tokMatch toks ts) := by
+  cases tok <;> simp [isLP] at hl <;> simp [tokMatch, checkT]
+
+theorem tmatch_nil_path (toks : List Tok) (h : tokOk toks = true) : tmatch toks [] = tokMatch toks [] := by
+  cases toks with
+  | nil => simp [tmatch, tokMatch, complete]
+  | cons tok toks => cases tok <;> simp [tmatch, tokMatch, joinSlash] <;> simp [tokOk] at h
+
+theorem joinSlash_splitSlash (t : Path) : joinSlash (splitSlash t) = t := by
+  induction t with
+  | nil => simp [splitSlash, joinSlash]
+  | cons c t ih =>
+    simp only [splitSlash]
+    cases hs : splitSlash t with
+    | nil => exact absurd hs (splitSlash_ne t)
+    | cons a b =>
+      rw [hs] at ih
+      by_cases hc : c = '/'
+      · subst hc
+        simp only [if_true]
+        cases b with
+        | nil => simp [joinSlash] at ih ⊢; exact ih
+        | cons b1 b2 => simp [joinSlash] at ih ⊢; exact ih
+      · simp only [hc, if_false]
+        cases b with
+        | nil => simp [joinSlash] at ih ⊢; exact ih
+        | cons b1 b2 => simp [joinSlash] at ih ⊢; exact ih
+
+theorem tokOk_tail (tok : Tok) (toks : List Tok) (h : tokOk (tok :: toks) = true) (hl : isLP tok = true) :
+    tokOk toks = true := by
+  cases tok <;> simp [isLP] at hl <;> simpa [tokOk] using h
+
+theorem tokOk_head (tok : Tok) (toks : List Tok) (h : tokOk (tok :: toks) = true) :
+    isLP tok = true ∨ (∃ n, tok = .spl n ∧ toks = []) := by
+  cases tok with
+  | lit s => left; rfl
+  | par n => left; rfl
+  | spl n =>
+    right
+    cases toks with
+    | nil => exact ⟨n, rfl, rfl⟩
+    | cons a b => simp [tokOk] at h
+  | bad => simp [tokOk] at h
+
+/-- (F2) -/
+theorem tmatch_eq_lenient : ∀ (toks : List Tok), tokOk toks = true → toks ≠ [] → ∀ t : Path,
+    tmatch toks ('/' :: t) = lenient toks t := by
+  intro toks
+  induction toks with
+  | nil => intro _ h; exact absurd rfl h
+  | cons tok toks ih =>
+    intro hok _ t
+    rcases tokOk_head tok toks hok with hl | ⟨n, rfl, rfl⟩
+    · -- literal or param
+      have hok' := tokOk_tail tok toks hok hl
+      rw [tmatch_cons tok toks t hl]
+      unfold lenient
+      rw [splitSlash_unfold t]
+      cases hst : segTail t with
+      | nil =>
+        simp only [endsSlash_of_segTail_nil t hst, Bool.false_eq_true, and_false, if_false]
+        rw [tokMatch_cons tok _ _ _ hl, tmatch_nil_path toks hok']
+        cases checkT tok (segHead t) (tokMatch toks []) <;> rfl
+      | cons c r =>
+        have hc : c = '/' := by
+          have := segTail_aligned t
+          rw [hst] at this
+          simpa [startsSlash] using this
+        subst hc
+        have htne : t.isEmpty = false := by
+          cases t with
+          | nil => simp [segTail] at hst
+          | cons _ _ => rfl
+        simp only [htne, endsSlash_of_segTail_cons t '/' r hst, true_and,
+          List.dropLast_cons_of_ne_nil (splitSlash_ne r)]
+        rw [tokMatch_cons tok _ _ _ hl, tokMatch_cons tok _ _ _ hl]
+        cases toks with
+        | nil =>
+          simp only [tmatch, complete_slash, tm_nil]
+          have hne := splitSlash_ne r
+          simp only [hne, if_false, checkT_none]
+          cases r with
+          | nil => simp [splitSlash, orE]
+          | cons d r' =>
+            simp only [List.isEmpty_cons, Bool.false_or, Bool.false_eq_true, if_false, checkT_none]
+            cases he : endsSlash (d :: r') with
+            | false => simp [orE]
+            | true =>
+              have := dropLast_ne_of_endsSlash (d :: r') he
+              simp [this, checkT_none, orE]
+        | cons g toks' =>
+          rw [ih hok' (by simp) r]
+          unfold lenient
+          rw [checkT_orE]
+          cases r with
+          | nil =>
+            simp only [List.isEmpty_nil, Bool.true_or, if_true, splitSlash, List.dropLast_singleton,
+              Bool.true_eq_false, false_and, if_false, checkT_none]
+            cases hS : tokMatch (g :: toks') [[]] with
+            | none =>
+              -- then g is not a wildcard, and `tokMatch (g :: toks') []` is none as well
+              have : tokMatch (g :: toks') [] = none := by
+                cases g <;> simp [tokMatch] at hS ⊢
+              simp [this, checkT_none]
+            | some a =>
+              cases hck : checkT tok (segHead t) (some a) with
+              | some b => simp [orE]
+              | none => simp [orE, checkT_fail tok _ a hck]
+          | cons d r' =>
+            simp only [List.isEmpty_cons, Bool.false_or, true_and]
+            cases endsSlash (d :: r') <;> simp [checkT_none]
+    · -- a wildcard, last
+      simp only [tmatch, if_true]
+      unfold lenient
+      simp [tokMatch, joinSlash_splitSlash, orE]
+
+
+
+/-! ### the registered pattern of a well-formed flat route -/
+
+def bodyT : Tok → List PChar
+  | .lit s => s.map PChar.lit
+  | .par n => [PChar.par n]
+  | .spl n => [PChar.spl n]
+  | .bad => []
+
+def joinT : List Tok → List PChar
+  | [] => []
+  | t :: ts => PChar.lit '/' :: (bodyT t ++ joinT ts)
+
+theorem joinAxum_toks : ∀ (F : List FSeg), (∀ f ∈ F, WfA f) → joinAxum F = joinT (toksG F) := by
+  intro F
+  induction F with
+  | nil => intro _; rfl
+  | cons f F ih =>
+    intro hw
+    have hf := hw f (by simp)
+    have ih' := ih (fun x hx => hw x (by simp [hx]))
+    cases f with
+    | st s =>
+      rcases hf with hp | rfl | rfl
+      · obtain ⟨hh, he, hs2⟩ := plain_facts hp
+        have h1 : s ≠ [] := hp.1
+        have h2 : s ≠ ['/'] := by intro h; rw [h] at hp; exact hp.2 (by simp)
+        simp [joinAxum, FSeg.raw, he, plain_not_startsSlash hp.2, toksG, tokOfG, h1, h2, joinT, bodyT, ih']
+      · simp [joinAxum, FSeg.raw, toksG, tokOfG, ih']
+      · simp [joinAxum, FSeg.raw, startsSlash, toksG, tokOfG, joinT, bodyT, ih']
+    | param n =>
+      obtain ⟨hh, he, hs2⟩ := plain_facts hf
+      simp [joinAxum, FSeg.raw, he, plain_not_startsSlash hf.2, toksG, tokOfG, joinT, bodyT, ih']
+    | splat n =>
+      obtain ⟨hh, he, hs2⟩ := plain_facts hf
+      simp [joinAxum, FSeg.raw, he, plain_not_startsSlash hf.2, toksG, tokOfG, joinT, bodyT, ih']
+    | opt n => simp [WfA] at hf
+
+/-- tokens whose text has no `/` (what `toksG` of a well-formed route produces) -/
+def TokFree : Tok → Prop
+  | .lit s => '/' ∉ s
+  | .par _ => True
+  | .spl _ => True
+  | .bad => False
+
+theorem bodyT_free (t : Tok) (h : TokFree t) : PChar.lit '/' ∉ bodyT t := by
+  cases t with
+  | lit s => simp [bodyT]; exact h
+  | par n => simp [bodyT]
+  | spl n => simp [bodyT]
+  | bad => simp [TokFree] at h
+
+theorem toTok_bodyT (t : Tok) (h : TokFree t) : toTok (bodyT t) = t := by
+  cases t with
+  | lit s =>
+    cases s with
+    | nil => simp [bodyT, toTok, litsOf]
+    | cons c r =>
+      cases r with
+      | nil => simp [bodyT, toTok, litsOf]
+      | cons d r => simp [bodyT, toTok, litsOf, litsOf_map]
+  | par n => simp [bodyT, toTok]
+  | spl n => simp [bodyT, toTok]
+  | bad => simp [TokFree] at h
+
+theorem splitP_joinT (t : Tok) (ts : List Tok) (ht : TokFree t) (hs : ∀ x ∈ ts, TokFree x) :
+    splitP (bodyT t ++ joinT ts) = (t :: ts).map bodyT := by
+  induction ts generalizing t with
+  | nil => simp [joinT, splitP_free _ (bodyT_free t ht)]
+  | cons u ts ih =>
+    simp only [joinT]
+    rw [splitP_append_sep _ _ (bodyT_free t ht), ih u (hs u (by simp)) (fun x hx => hs x (by simp [hx]))]
+    simp
+
+theorem toksG_free : ∀ (F : List FSeg), (∀ f ∈ F, WfA f) → ∀ x ∈ toksG F, TokFree x := by
+  intro F
+  induction F with
+  | nil => intro _ x hx; simp [toksG] at hx
+  | cons f F ih =>
+    intro hw x hx
+    have hf := hw f (by simp)
+    have ih' := ih (fun y hy => hw y (by simp [hy]))
+    simp only [toksG, List.mem_append] at hx
+    rcases hx with hx | hx
+    · cases f with
+      | st s =>
+        rcases hf with hp | rfl | rfl
+        · have h1 : s ≠ [] := hp.1
+          have h2 : s ≠ ['/'] := by intro h; rw [h] at hp; exact hp.2 (by simp)
+          simp [tokOfG, h1, h2] at hx; subst hx; exact hp.2
+        · simp [tokOfG] at hx
+        · simp [tokOfG] at hx; subst hx; simp [TokFree]
+      | param n => simp [tokOfG] at hx; subst hx; trivial
+      | splat n => simp [tokOfG] at hx; subst hx; trivial
+      | opt n => simp [WfA] at hf
+    · exact ih' x hx
+
+/-- (F1) the pattern the server registers for a well-formed flat route, as tokens -/
+theorem patternTokens_wf (F : List FSeg) (hw : ∀ f ∈ F, WfA f) :
+    patternTokens F = some (if toksG F = [] then [.lit []] else toksG F) := by
+  unfold patternTokens
+  rw [joinAxum_toks F hw]
+  have hfree := toksG_free F hw
+  cases hT : toksG F with
+  | nil => simp [joinT]
+  | cons t ts =>
+    rw [hT] at hfree
+    simp only [joinT, if_true]
+    rw [splitP_joinT t ts (hfree t (by simp)) (fun x hx => hfree x (by simp [hx]))]
+    simp only [List.map_map, reduceCtorEq, if_false]
+    congr 1
+    have : ∀ x ∈ t :: ts, (toTok ∘ bodyT) x = x := fun x hx => toTok_bodyT x (hfree x hx)
+    rw [List.map_congr_left this]
+    simp
+
+theorem toksG_ok : ∀ (F : List FSeg), (∀ f ∈ F, WfA f) → splatLast F = true → tokOk (toksG F) = true := by
+  intro F
+  induction F with
+  | nil => intro _ _; rfl
+  | cons f F ih =>
+    intro hw hsl
+    have hf := hw f (by simp)
+    have hsl' : splatLast F = true := by
+      cases F with
+      | nil => rfl
+      | cons g G => cases f <;> simp [splatLast] at hsl ⊢ <;> exact hsl
+    have ih' := ih (fun y hy => hw y (by simp [hy])) hsl'
+    cases f with
+    | st s =>
+      rcases hf with hp | rfl | rfl
+      · have h1 : s ≠ [] := hp.1
+        have h2 : s ≠ ['/'] := by intro h; rw [h] at hp; exact hp.2 (by simp)
+        simpa [toksG, tokOfG, h1, h2, tokOk] using ih'
+      · simpa [toksG, tokOfG] using ih'
+      · simpa [toksG, tokOfG, tokOk] using ih'
+    | param n => simpa [toksG, tokOfG, tokOk] using ih'
+    | splat n =>
+      have hF : F = [] := by
+        cases F with
+        | nil => rfl
+        | cons g G => simp [splatLast] at hsl
+      subst hF
+      simp [toksG, tokOfG, tokOk]
+    | opt n => simp [WfA] at hf
+
+/-! ### strict ⊆ router-side acceptance ⊆ lenient, for a well-formed flat route -/
+
+theorem tokMatch_single_empty (ts : List Path) (q : Params) (h : tokMatch [.lit []] ts = some q) :
+    ts = [[]] ∧ q = [] := by
+  cases ts with
+  | nil => simp [tokMatch] at h
+  | cons a b =>
+    simp only [tokMatch] at h
+    split at h
+    · next he =>
+      cases b with
+      | nil => simp [tokMatch] at h; exact ⟨by simp [← he], h⟩
+      | cons c d => simp [tokMatch] at h
+    · simp at h
+
+theorem splitSlash_single_empty (t : Path) (h : splitSlash t = [[]]) : t = [] := by
+  rw [splitSlash_unfold] at h
+  cases hst : segTail t with
+  | nil =>
+    rw [hst] at h
+    simp at h
+    have := segHead_append_segTail t
+    rw [h, hst] at this
+    simpa using this.symm
+  | cons c r =>
+    rw [hst] at h
+    simp at h
+    exact absurd h.2 (splitSlash_ne r)
+
+/-- (H1) a strict table match is accepted on the router side -/
+theorem strict_imp_gmatch (F : List FSeg) (hw : ∀ f ∈ F, WfA f) (hsl : splatLast F = true) (path : Path)
+    (q : Params) (h : flatMatchStrict F path = some q) : gmatch F path = some q := by
+  unfold flatMatchStrict at h
+  rw [patternTokens_wf F hw] at h
+  cases path with
+  | nil => simp at h
+  | cons c t =>
+    simp only at h
+    split at h
+    · next hc =>
+      subst hc
+      rw [gmatch_eq_tmatch F hw hsl]
+      by_cases hT : toksG F = []
+      · simp only [hT, if_true] at h
+        obtain ⟨h1, h2⟩ := tokMatch_single_empty _ _ h
+        have := splitSlash_single_empty t h1
+        subst this; subst h2
+        simp [hT, tmatch, complete]
+      · simp only [hT, if_false] at h
+        rw [tmatch_eq_lenient _ (toksG_ok F hw hsl) hT]
+        simp [lenient, h, orE]
+    · simp at h
+
+/-- (H2) what the router side accepts, the table accepts, strictly or with the trailing slash dropped,
+with the same params -/
+theorem gmatch_imp_lenient (F : List FSeg) (hw : ∀ f ∈ F, WfA f) (hsl : splatLast F = true) (t : Path)
+    (q : Params) (h : gmatch F ('/' :: t) = some q) :
+    flatMatchStrict F ('/' :: t) = some q ∨ flatMatchTrim F ('/' :: t) = some q := by
+  rw [gmatch_eq_tmatch F hw hsl] at h
+  unfold flatMatchStrict flatMatchTrim
+  rw [patternTokens_wf F hw]
+  simp only [if_true, true_and]
+  by_cases hT : toksG F = []
+  · simp only [hT, if_true]
+    rw [hT] at h
+    simp only [tmatch, complete_slash] at h
+    split at h
+    · next he =>
+      have : t = [] := by cases t <;> simp at he ⊢
+      subst this
+      simp at h; subst h
+      left; simp [splitSlash, tokMatch]
+    · simp at h
+  · simp only [hT, if_false]
+    rw [tmatch_eq_lenient _ (toksG_ok F hw hsl) hT] at h
+    unfold lenient at h
+    cases hS : tokMatch (toksG F) (splitSlash t) with
+    | some a => rw [hS] at h; simp [orE] at h; left; rw [h]
+    | none =>
+      rw [hS] at h
+      simp only [orE] at h
+      right
+      split at h
+      · next hc => simp [hc.1, hc.2, h]
+      · simp at h
+
+
+
+/-! ### well-formed route tables (atoms, wildcard position, base) -/
+
+mutual
+theorem gen_noOpt : ∀ (s : Seg), s.optional = false → ∀ f ∈ s.gen, f.isOpt = false
+  | .st s, _, f, hf => by simp [Seg.gen] at hf; subst hf; rfl
+  | .param n, _, f, hf => by simp [Seg.gen] at hf; subst hf; rfl
+  | .opt n, h, _, _ => by simp [Seg.optional] at h
+  | .splat n, _, f, hf => by simp [Seg.gen] at hf; subst hf; rfl
+  | .tup l, h, f, hf => by
+    simp only [Seg.optional] at h
+    simp only [Seg.gen] at hf
+    exact genSegs_noOpt l h f hf
+theorem genSegs_noOpt : ∀ (l : List Seg), anyOptional l = false → ∀ f ∈ genSegs l, f.isOpt = false
+  | [], _, f, hf => by simp [genSegs] at hf
+  | a :: r, h, f, hf => by
+    simp only [anyOptional, Bool.or_eq_false_iff] at h
+    simp only [genSegs, List.mem_append] at hf
+    rcases hf with hf | hf
+    · exact gen_noOpt a h.1 f hf
+    · exact genSegs_noOpt r h.2 f hf
+end
+
+theorem wfa_of_wfao {f : FSeg} (h : WfAO f) (ho : f.isOpt = false) : WfA f := by
+  cases f <;> simp [FSeg.isOpt] at ho <;> exact h
+
+theorem splatLast_append (a b : List FSeg) (ha : noSplat a = true) (hb : splatLast b = true) :
+    splatLast (a ++ b) = true := by
+  induction a with
+  | nil => simpa using hb
+  | cons f a ih =>
+    have ha' : noSplat a = true := by cases f <;> simp [noSplat] at ha ⊢ <;> exact ha
+    have := ih ha'
+    cases f with
+    | splat n => simp [noSplat] at ha
+    | st s => cases hab : a ++ b <;> simp [splatLast, hab] at this ⊢ <;> exact this
+    | param s => cases hab : a ++ b <;> simp [splatLast, hab] at this ⊢ <;> exact this
+    | opt s => cases hab : a ++ b <;> simp [splatLast, hab] at this ⊢ <;> exact this
+
+theorem mem_prefixAll (a : List FSeg) (fs : List (List FSeg)) (F : List FSeg) (h : F ∈ prefixAll a fs) :
+    ∃ G ∈ fs, F = a ++ G := by
+  induction fs with
+  | nil => simp [prefixAll] at h
+  | cons g fs ih =>
+    simp only [prefixAll, List.mem_cons] at h
+    rcases h with h | h
+    · exact ⟨g, by simp, h⟩
+    · obtain ⟨G, hG, hF⟩ := ih h
+      exact ⟨G, by simp [hG], hF⟩
+
+mutual
+theorem good_of_wf : ∀ (r : Route), r.wf = true → r.noOptional = true → r.good = true
+  | .mk segs children, hw, hn => by
+    simp only [Route.wf, Bool.and_eq_true, List.all_eq_true, decide_eq_true_eq] at hw
+    simp only [Route.noOptional, Bool.and_eq_true, Bool.not_eq_true'] at hn
+    simp only [Route.good, Bool.and_eq_true, Bool.not_eq_true', List.all_eq_true, decide_eq_true_eq]
+    exact ⟨⟨hn.1, fun f hf => wfa_of_wfao (hw.1.1 f hf) (gen_noOpt segs hn.1 f hf)⟩,
+      goodList_of_wf children hw.2 hn.2⟩
+theorem goodList_of_wf : ∀ (cs : List Route), wfList cs = true → noOptionalList cs = true → goodList cs = true
+  | [], _, _ => rfl
+  | c :: cs, hw, hn => by
+    simp only [wfList, Bool.and_eq_true] at hw
+    simp only [noOptionalList, Bool.and_eq_true] at hn
+    simp only [goodList, Bool.and_eq_true]
+    exact ⟨good_of_wf c hw.1 hn.1, goodList_of_wf cs hw.2 hn.2⟩
+end
+
+/-- a flat route the matcher can be compared with: well-formed atoms, wildcard last -/
+def FlatOk (F : List FSeg) : Prop := (∀ f ∈ F, WfA f) ∧ splatLast F = true
+
+mutual
+theorem flats_ok : ∀ (r : Route), r.wf = true → r.noOptional = true → ∀ F ∈ r.gen, FlatOk F
+  | .mk segs children, hw, hn, F, hF => by
+    simp only [Route.wf, Bool.and_eq_true, List.all_eq_true, decide_eq_true_eq] at hw
+    simp only [Route.noOptional, Bool.and_eq_true, Bool.not_eq_true'] at hn
+    have hat : ∀ f ∈ segs.gen, WfA f := fun f hf => wfa_of_wfao (hw.1.1 f hf) (gen_noOpt segs hn.1 f hf)
+    simp only [Route.gen] at hF
+    by_cases hce : children.isEmpty = true
+    · simp only [hce, if_true, List.mem_singleton] at hF
+      subst hF
+      exact ⟨hat, by simpa [hce] using hw.1.2⟩
+    · simp only [hce, Bool.false_eq_true, if_false] at hF
+      obtain ⟨G, hG, rfl⟩ := mem_prefixAll _ _ _ hF
+      have hGok := flatsList_ok children hw.2 hn.2 G hG
+      refine ⟨?_, splatLast_append _ _ (by simpa [hce] using hw.1.2) hGok.2⟩
+      intro f hf
+      simp only [List.mem_append] at hf
+      rcases hf with hf | hf
+      · exact hat f hf
+      · exact hGok.1 f hf
+theorem flatsList_ok : ∀ (cs : List Route), wfList cs = true → noOptionalList cs = true →
+    ∀ F ∈ genList cs, FlatOk F
+  | [], _, _, F, hF => by simp [genList] at hF
+  | c :: cs, hw, hn, F, hF => by
+    simp only [wfList, Bool.and_eq_true] at hw
+    simp only [noOptionalList, Bool.and_eq_true] at hn
+    simp only [genList, List.mem_append] at hF
+    rcases hF with hF | hF
+    · exact flats_ok c hw.1 hn.1 F hF
+    · exact flatsList_ok cs hw.2 hn.2 F hF
+end
+
+/-! ### the base as a leading segment -/
+
+/-- the base as well-formed atoms in front of every flat route -/
+def normBase : Option Path → List FSeg
+  | none => []
+  | some [] => [.st []]
+  | some (_ :: s) => [.st s]
+
+theorem normBase_ok (b : Option Path) (hb : baseOk b = true) : ∀ f ∈ normBase b, WfA f := by
+  intro f hf
+  match b, hb with
+  | none, _ => simp [normBase] at hf
+  | some [], _ => simp [normBase] at hf; subst hf; right; left; rfl
+  | some (c :: s), hb =>
+    simp [baseOk] at hb
+    simp [normBase] at hf; subst hf
+    left; exact hb.2
+
+theorem normBase_noSplat (b : Option Path) : noSplat (normBase b) = true := by
+  match b with
+  | none => rfl
+  | some [] => rfl
+  | some (c :: s) => rfl
+
+/-- the registered pattern does not change when the base is written as a plain segment -/
+theorem joinAxum_base (b : Option Path) (hb : baseOk b = true) (F : List FSeg) :
+    joinAxum (withBase b F) = joinAxum (normBase b ++ F) := by
+  match b, hb with
+  | none, _ => rfl
+  | some [], _ => rfl
+  | some (c :: s), hb =>
+    simp [baseOk] at hb
+    obtain ⟨rfl, hp⟩ := hb
+    obtain ⟨hh, he, hs2⟩ := plain_facts hp
+    have hns := plain_not_startsSlash hp.2
+    have h0 : startsSlash ('/' :: s) = true := by simp [startsSlash]
+    simp only [withBase, normBase, List.singleton_append, joinAxum, FSeg.raw]
+    simp [h0, he, hns]
+
+theorem flatStrict_base (b : Option Path) (hb : baseOk b = true) (F : List FSeg) (path : Path) :
+    flatMatchStrict (withBase b F) path = flatMatchStrict (normBase b ++ F) path := by
+  unfold flatMatchStrict patternTokens
+  rw [joinAxum_base b hb F]
+
+theorem flatTrim_base (b : Option Path) (hb : baseOk b = true) (F : List FSeg) (path : Path) :
+    flatMatchTrim (withBase b F) path = flatMatchTrim (normBase b ++ F) path := by
+  unfold flatMatchTrim patternTokens
+  rw [joinAxum_base b hb F]
+
+/-- base stripping in the aligned variant = the base atoms consumed in front -/
+theorem stripBase_aligned (b : Option Path) (hb : baseOk b = true) (path : Path) (hp : startsSlash path = true) :
+    seqSpec (normBase b) path = (stripBase .aligned b path).map (fun r => (r, [])) := by
+  match b, hb with
+  | none, _ => simp [normBase, seqSpec, stripBase]
+  | some [], _ =>
+    cases path with
+    | nil => simp [startsSlash] at hp
+    | cons c t =>
+      have hc : c = '/' := by simpa [startsSlash] using hp
+      subst hc
+      simp [normBase, seqSpec, atomSpec, stripBase, stripPrefix, startsSlash]
+  | some (c :: s), hb =>
+    simp [baseOk] at hb
+    obtain ⟨rfl, hpl⟩ := hb
+    cases path with
+    | nil => simp [startsSlash] at hp
+    | cons c t =>
+      have hc : c = '/' := by simpa [startsSlash] using hp
+      subst hc
+      have h1 : s ≠ [] := hpl.1
+      have h2 : s ≠ ['/'] := by intro h; rw [h] at hpl; exact hpl.2 (by simp)
+      simp only [normBase, seqSpec, atomSpec, if_true, h1, h2, if_false, stripBase, stripPrefix]
+      cases hsp : stripPrefix s t with
+      | none =>
+        have : segHead t ≠ s := by
+          intro h
+          obtain ⟨rest, h3, _, _⟩ := (segHead_eq_iff s t hpl.2).1 h
+          subst h3; simp [stripPrefix_append] at hsp
+        simp [this]
+      | some rest =>
+        have ht := stripPrefix_some s t rest hsp
+        subst ht
+        by_cases hal : Aligned rest
+        · obtain ⟨h3, h4⟩ := segHead_append s rest hpl.2 hal
+          have : (rest.isEmpty || startsSlash rest) = true := by
+            rcases hal with h | h
+            · simp [h]
+            · simp [h]
+          simp [h3, h4, this]
+        · have hne : segHead (s ++ rest) ≠ s := by
+            intro h
+            obtain ⟨rest', h3, h4, _⟩ := (segHead_eq_iff s _ hpl.2).1 h
+            have : rest' = rest := by simpa using h3.symm
+            subst this
+            exact hal h4
+          have : (rest.isEmpty || startsSlash rest) = false := by
+            cases hr : rest with
+            | nil => exact absurd (Or.inl hr) hal
+            | cons d r' =>
+              cases hss : startsSlash (d :: r') with
+              | false => simp
+              | true => rw [hr] at hal; exact absurd (Or.inr hss) hal
+          simp [hne, this]
+
+
+
+/-! ### the general partial theorem -/
+
+/-- the registered table with the base written as plain atoms, per top-level definition -/
+def tab (d : Defs) : List (List (List FSeg)) := d.tops.map fun t => prefixAll (normBase d.base) t.gen
+
+def firstDefT : List (List (List FSeg)) → Nat → Path → Option (Nat × Params)
+  | [], _, _ => none
+  | fs :: rest, i, path =>
+    match firstG fs path with
+    | some ps => some (i, ps)
+    | none => firstDefT rest (i + 1) path
+
+def mres : Out NMatch → Out (Option Nat × Params)
+  | .some m => .some (m.chain.head?.map (·.1), m.params)
+  | .none => .none
+  | .panic => .panic
+
+theorem firstDefT_tab (b : Option Path) (hb : baseOk b = true) (path : Path) (hp : startsSlash path = true) :
+    ∀ (tops : List Route) (i : Nat),
+      firstDefT (tops.map fun t => prefixAll (normBase b) t.gen) i path =
+        match stripBase .aligned b path with
+        | none => none
+        | some p => firstDef tops i p := by
+  intro tops
+  induction tops with
+  | nil => intro i; simp only [List.map_nil, firstDefT, firstDef]; cases stripBase .aligned b path <;> rfl
+  | cons c cs ih =>
+    intro i
+    simp only [List.map_cons, firstDefT, firstDef, firstG_prefix, stripBase_aligned b hb path hp, ih]
+    cases stripBase .aligned b path with
+    | none => simp
+    | some p =>
+      simp only [Option.map_some]
+      cases firstG c.gen p <;> simp
+
+/-- the aligned router on an optional-free, well-formed table: the first definition one of whose
+registered routes accepts the path, with that route's params; never a panic -/
+theorem route_aligned (d : Defs) (hw : d.wf = true) (hn : noOptionalList d.tops = true) (path : Path)
+    (hp : startsSlash path = true) :
+    mres (matchRoute .aligned d path) =
+      match firstDefT (tab d) 0 path with
+      | some (i, ps) => .some (some i, ps)
+      | none => .none := by
+  simp only [Defs.wf, Bool.and_eq_true, Bool.not_eq_true'] at hw
+  obtain ⟨⟨hb, hwl⟩, _⟩ := hw
+  have hg := goodList_of_wf d.tops hwl hn
+  unfold tab matchRoute
+  rw [firstDefT_tab d.base hb path hp]
+  cases stripBase .aligned d.base path with
+  | none => simp [mres]
+  | some p =>
+    have hc := children_aligned d.tops hg 0 p
+    simp only
+    cases hm : matchChildren .aligned d.tops 0 p with
+    | panic => rw [hm] at hc; cases hf : firstDef d.tops 0 p <;> simp [hf, nres] at hc
+    | none =>
+      rw [hm] at hc
+      cases hf : firstDef d.tops 0 p with
+      | some x => simp [hf, nres] at hc
+      | none => simp [mres]
+    | some m rem =>
+      rw [hm] at hc
+      have hcomp := children_rem_complete .aligned d.tops 0 p m rem hm
+      cases hf : firstDef d.tops 0 p with
+      | none => simp [hf, nres] at hc
+      | some x =>
+        obtain ⟨j, ps⟩ := x
+        simp [hf, nres] at hc
+        simp [hcomp, mres, hc]
+
+theorem firstOpt_wfa (F : List FSeg) (h : ∀ f ∈ F, WfA f) : firstOpt F = none := by
+  induction F with
+  | nil => rfl
+  | cons f F ih =>
+    have hf := h f (by simp)
+    have := ih (fun x hx => h x (by simp [hx]))
+    cases f <;> simp [WfA] at hf <;> simp [firstOpt, this]
+
+theorem withBase_noOpt (b : Option Path) (F : List FSeg) (h : firstOpt F = none) : firstOpt (withBase b F) = none := by
+  cases b <;> simp [withBase, firstOpt, h]
+
+theorem flatMap_expand (Fs : List (List FSeg)) (h : ∀ F ∈ Fs, firstOpt F = none) :
+    Fs.flatMap expandOptionals = Fs := by
+  induction Fs with
+  | nil => rfl
+  | cons F Fs ih =>
+    have h1 := (firstOpt_none (h F (by simp))).2
+    simp [List.flatMap_cons, expandOptionals_eq_spec, h1, ih (fun G hG => h G (by simp [hG]))]
+
+theorem anyStrict_base (b : Option Path) (hb : baseOk b = true) (Fs : List (List FSeg)) (path : Path) :
+    anyStrict (Fs.map (withBase b)) path = anyStrict (prefixAll (normBase b) Fs) path := by
+  induction Fs with
+  | nil => rfl
+  | cons F Fs ih =>
+    simp only [anyStrict, List.map_cons, List.any_cons, prefixAll] at ih ⊢
+    rw [flatStrict_base b hb F path, ih]
+
+theorem lenientParams_base (b : Option Path) (hb : baseOk b = true) (Fs : List (List FSeg)) (path : Path) :
+    lenientParams (Fs.map (withBase b)) path = lenientParams (prefixAll (normBase b) Fs) path := by
+  induction Fs with
+  | nil => rfl
+  | cons F Fs ih =>
+    simp only [lenientParams, List.map_cons, List.flatMap_cons, prefixAll] at ih ⊢
+    rw [flatStrict_base b hb F path, flatTrim_base b hb F path, ih]
+
+theorem anyStrict_imp_firstG (Gs : List (List FSeg)) (hok : ∀ G ∈ Gs, FlatOk G) (path : Path)
+    (h : anyStrict Gs path = true) : ∃ q, firstG Gs path = some q := by
+  induction Gs with
+  | nil => simp [anyStrict] at h
+  | cons G Gs ih =>
+    simp only [firstG]
+    cases hg : gmatch G path with
+    | some q => exact ⟨q, rfl⟩
+    | none =>
+      simp only [anyStrict, List.any_cons, Bool.or_eq_true] at h
+      rcases h with h | h
+      · cases hs : flatMatchStrict G path with
+        | none => simp [hs] at h
+        | some q =>
+          have := strict_imp_gmatch G (hok G (by simp)).1 (hok G (by simp)).2 path q hs
+          rw [hg] at this; simp at this
+      · exact ih (fun x hx => hok x (by simp [hx])) h
+
+theorem firstG_imp_lenient (Gs : List (List FSeg)) (hok : ∀ G ∈ Gs, FlatOk G) (t : Path) (q : Params)
+    (h : firstG Gs ('/' :: t) = some q) : q ∈ lenientParams Gs ('/' :: t) := by
+  induction Gs with
+  | nil => simp [firstG] at h
+  | cons G Gs ih =>
+    simp only [firstG] at h
+    simp only [lenientParams, List.flatMap_cons, List.mem_append]
+    cases hg : gmatch G ('/' :: t) with
+    | some q' =>
+      rw [hg] at h; simp at h; subst h
+      left
+      rcases gmatch_imp_lenient G (hok G (by simp)).1 (hok G (by simp)).2 t q' hg with h1 | h1
+      · simp [h1]
+      · simp [h1]
+    | none =>
+      rw [hg] at h
+      right
+      exact ih (fun x hx => hok x (by simp [hx])) h
+
+theorem mem_genList (cs : List Route) (t : Route) (F : List FSeg) (ht : t ∈ cs) (hF : F ∈ t.gen) :
+    F ∈ genList cs := by
+  induction cs with
+  | nil => simp at ht
+  | cons c cs ih =>
+    simp only [genList, List.mem_append]
+    simp only [List.mem_cons] at ht
+    rcases ht with rfl | ht
+    · left; exact hF
+    · right; exact ih ht
+
+theorem tab_ok (d : Defs) (hw : d.wf = true) (hn : noOptionalList d.tops = true) :
+    ∀ Gs ∈ tab d, ∀ G ∈ Gs, FlatOk G := by
+  simp only [Defs.wf, Bool.and_eq_true, Bool.not_eq_true'] at hw
+  obtain ⟨⟨hb, hwl⟩, _⟩ := hw
+  intro Gs hGs G hG
+  simp only [tab, List.mem_map] at hGs
+  obtain ⟨t, ht, rfl⟩ := hGs
+  obtain ⟨F, hF, rfl⟩ := mem_prefixAll _ _ _ hG
+  have hFok : FlatOk F := by
+    have : F ∈ genList d.tops := mem_genList d.tops t F ht hF
+    exact flatsList_ok d.tops hwl hn F this
+  refine ⟨?_, splatLast_append _ _ (normBase_noSplat d.base) hFok.2⟩
+  intro f hf
+  simp only [List.mem_append] at hf
+  rcases hf with hf | hf
+  · exact normBase_ok d.base hb f hf
+  · exact hFok.1 f hf
+
+
+
+theorem firstStrict_ge : ∀ (T : List (List (List FSeg))) (path : Path) (i j : Nat),
+    firstStrict T path i = some j → i ≤ j := by
+  intro T
+  induction T with
+  | nil => intro path i j h; simp [firstStrict] at h
+  | cons d ds ih =>
+    intro path i j h
+    simp only [firstStrict] at h
+    split at h
+    · simp at h; omega
+    · have := ih path (i + 1) j h; omega
+
+theorem expandedPerDef_eq (d : Defs) (hw : d.wf = true) (hn : noOptionalList d.tops = true) :
+    expandedPerDef d = d.tops.map fun t => t.gen.map (withBase d.base) := by
+  simp only [Defs.wf, Bool.and_eq_true, Bool.not_eq_true'] at hw
+  obtain ⟨⟨hb, hwl⟩, _⟩ := hw
+  unfold expandedPerDef
+  apply List.map_congr_left
+  intro t ht
+  apply flatMap_expand
+  intro F hF
+  simp only [List.mem_map] at hF
+  obtain ⟨F0, hF0, rfl⟩ := hF
+  have hok := flatsList_ok d.tops hwl hn F0 (mem_genList d.tops t F0 ht hF0)
+  exact withBase_noOpt _ _ (firstOpt_wfa F0 hok.1)
+
+/-- declaration order at the level of the table: what `firstDefT` finds is a registered route of
+definition `i` that accepts the path with these params, and no earlier definition has a strict match -/
+theorem table_first (b : Option Path) (hb : baseOk b = true) (t' : Path) :
+    ∀ (tops : List Route) (i0 i : Nat) (ps : Params),
+      (∀ t ∈ tops, ∀ X ∈ prefixAll (normBase b) t.gen, FlatOk X) →
+      firstDefT (tops.map fun t => prefixAll (normBase b) t.gen) i0 ('/' :: t') = some (i, ps) →
+      i0 ≤ i ∧
+      (∃ t : Route, (tops.map fun t => t.gen.map (withBase b))[i - i0]? = some (t.gen.map (withBase b)) ∧
+        ps ∈ lenientParams (t.gen.map (withBase b)) ('/' :: t')) ∧
+      (∀ j, firstStrict (tops.map fun t => t.gen.map (withBase b)) ('/' :: t') i0 = some j → ¬ j < i) := by
+  intro tops
+  induction tops with
+  | nil => intro i0 i ps _ h; simp [firstDefT] at h
+  | cons c cs ih =>
+    intro i0 i ps hok h
+    simp only [List.map_cons, firstDefT] at h
+    cases hg : firstG (prefixAll (normBase b) c.gen) ('/' :: t') with
+    | some q =>
+      rw [hg] at h; simp at h
+      obtain ⟨rfl, rfl⟩ := h
+      refine ⟨Nat.le_refl _, ⟨c, by simp, ?_⟩, ?_⟩
+      · rw [lenientParams_base b hb]
+        exact firstG_imp_lenient _ (hok c (by simp)) t' q hg
+      · intro j hj
+        have := firstStrict_ge _ _ _ _ hj
+        omega
+    | none =>
+      rw [hg] at h; simp only at h
+      obtain ⟨h1, ⟨t, h2, h3⟩, h4⟩ := ih (i0 + 1) i ps (fun t ht => hok t (by simp [ht])) h
+      refine ⟨by omega, ⟨t, ?_, h3⟩, ?_⟩
+      · have : i - i0 = (i - (i0 + 1)) + 1 := by omega
+        rw [this]
+        simpa using h2
+      · intro j hj
+        simp only [List.map_cons, firstStrict] at hj
+        have hns : anyStrict (c.gen.map (withBase b)) ('/' :: t') = false := by
+          rw [anyStrict_base b hb]
+          cases hs : anyStrict (prefixAll (normBase b) c.gen) ('/' :: t') with
+          | false => rfl
+          | true =>
+            obtain ⟨q, hq⟩ := anyStrict_imp_firstG _ (hok c (by simp)) _ hs
+            rw [hg] at hq; simp at hq
+        rw [hns] at hj
+        simp only [Bool.false_eq_true, if_false] at hj
+        exact h4 j hj
+
+theorem table_none (b : Option Path) (hb : baseOk b = true) (path : Path) :
+    ∀ (tops : List Route) (i0 : Nat),
+      (∀ t ∈ tops, ∀ X ∈ prefixAll (normBase b) t.gen, FlatOk X) →
+      firstDefT (tops.map fun t => prefixAll (normBase b) t.gen) i0 path = none →
+      firstStrict (tops.map fun t => t.gen.map (withBase b)) path i0 = none := by
+  intro tops
+  induction tops with
+  | nil => intro i0 _ _; rfl
+  | cons c cs ih =>
+    intro i0 hok h
+    simp only [List.map_cons, firstDefT] at h
+    cases hg : firstG (prefixAll (normBase b) c.gen) path with
+    | some q => rw [hg] at h; simp at h
+    | none =>
+      rw [hg] at h; simp only at h
+      have hns : anyStrict (c.gen.map (withBase b)) path = false := by
+        rw [anyStrict_base b hb]
+        cases hs : anyStrict (prefixAll (normBase b) c.gen) path with
+        | false => rfl
+        | true =>
+          obtain ⟨q, hq⟩ := anyStrict_imp_firstG _ (hok c (by simp)) _ hs
+          rw [hg] at hq; simp at hq
+      simp only [List.map_cons, firstStrict, hns, Bool.false_eq_true, if_false]
+      exact ih (i0 + 1) (fun t ht => hok t (by simp [ht])) h
+
+/-- the oracle accepts the aligned router on every well-formed, optional-free table -/
+theorem judge_aligned (d : Defs) (hw : d.wf = true) (hn : noOptionalList d.tops = true) (path : Path)
+    (hp : startsSlash path = true) : judge d path (matchRoute .aligned d path) = none := by
+  have hr := route_aligned d hw hn path hp
+  have hb : baseOk d.base = true := by
+    simp only [Defs.wf, Bool.and_eq_true] at hw; exact hw.1.1
+  have hok : ∀ t ∈ d.tops, ∀ X ∈ prefixAll (normBase d.base) t.gen, FlatOk X := by
+    intro t ht X hX
+    exact tab_ok d hw hn _ (by simp only [tab, List.mem_map]; exact ⟨t, ht, rfl⟩) X hX
+  cases path with
+  | nil => simp [startsSlash] at hp
+  | cons c t' =>
+    have hc : c = '/' := by simpa [startsSlash] using hp
+    subst hc
+    unfold judge
+    rw [expandedPerDef_eq d hw hn]
+    cases hfd : firstDefT (tab d) 0 ('/' :: t') with
+    | none =>
+      rw [hfd] at hr
+      have hfs := table_none d.base hb ('/' :: t') d.tops 0 hok hfd
+      cases hm : matchRoute .aligned d ('/' :: t') with
+      | panic => rw [hm] at hr; simp [mres] at hr
+      | some m => rw [hm] at hr; simp [mres] at hr
+      | none => simp [hfs]
+    | some x =>
+      obtain ⟨i, ps⟩ := x
+      rw [hfd] at hr
+      obtain ⟨_, ⟨t, ht1, ht2⟩, hfirst⟩ := table_first d.base hb t' d.tops 0 i ps hok hfd
+      cases hm : matchRoute .aligned d ('/' :: t') with
+      | panic => rw [hm] at hr; simp [mres] at hr
+      | none => rw [hm] at hr; simp [mres] at hr
+      | some m =>
+        rw [hm] at hr
+        simp only [mres, Out.some.injEq, Prod.mk.injEq] at hr
+        obtain ⟨hhead, hparams⟩ := hr
+        cases hch : m.chain with
+        | nil => rw [hch] at hhead; simp at hhead
+        | cons e rest =>
+          obtain ⟨i', x⟩ := e
+          rw [hch] at hhead
+          simp at hhead
+          subst hhead
+          simp only [Nat.sub_zero] at ht1
+          have ht1' : Option.map (fun t : Route => t.gen.map (withBase d.base)) d.tops[i']? =
+              some (t.gen.map (withBase d.base)) := by simpa [List.getElem?_map] using ht1
+          have hne' : lenientParams (t.gen.map (withBase d.base)) ('/' :: t') ≠ [] := by
+            intro hl; rw [hl] at ht2; simp at ht2
+          have hmem : m.params ∈ lenientParams (t.gen.map (withBase d.base)) ('/' :: t') := by
+            rw [hparams]; exact ht2
+          cases hsf : firstStrict (d.tops.map fun t => t.gen.map (withBase d.base)) ('/' :: t') 0 with
+          | none => simp [hch, ht1', hne', hmem, hsf]
+          | some j =>
+            have := hfirst j hsf
+            simp [hch, ht1', hne', hmem, hsf, this]
+
+
+
+
+
+/-! ### first match wins -/
+
+mutual
+theorem nested_head_pos (k : Ver) : ∀ (r : Route) (pos : Nat) (path : Path) (m : NMatch) (rem : Path),
+    matchNested k r pos path = .some m rem → m.chain.head?.map (·.1) = some pos
+  | .mk segs children, pos, path, m, rem, h => by
+    have hfin : ∀ (a : Path) (b : Params) (c : Option NMatch) (e : Path),
+        finish pos a b c e = .some m rem → m.chain.head?.map (·.1) = some pos := by
+      intro a b c e hf
+      unfold finish at hf
+      split at hf
+      · cases c <;> simp at hf <;> (obtain ⟨rfl, _⟩ := hf; rfl)
+      · simp at hf
+    simp only [matchNested] at h
+    cases hs : segs.test k path with
+    | panic => rw [hs] at h; simp at h
+    | none => rw [hs] at h; simp at h
+    | some pm =>
+      rw [hs] at h; simp only at h
+      split at h
+      · exact hfin _ _ _ _ h
+      · cases hc : matchChildren k children 0 pm.remaining with
+        | panic => rw [hc] at h; simp at h
+        | some inner rem' => rw [hc] at h; exact hfin _ _ _ _ h
+        | none =>
+          rw [hc] at h; simp only at h
+          split at h
+          · cases hc2 : matchChildren k children 0 path with
+            | panic => rw [hc2] at h; simp at h
+            | none => rw [hc2] at h; simp at h
+            | some inner rem' =>
+              rw [hc2] at h; simp only at h
+              cases hs2 : segs.test k (trimEnd (innerMatched inner ++ rem') path) with
+              | some np => rw [hs2] at h; exact hfin _ _ _ _ h
+              | none => rw [hs2] at h; simp only at h; split at h <;> simp at h
+              | panic => rw [hs2] at h; simp at h
+          · simp at h
+end
+
+/-- **the first matching definition in declaration order wins** (sibling lists, every version of the
+code): what `matchChildren` returns is the result of the first sibling that matches, all earlier
+siblings do not match, and the reported position is that sibling's. -/
+theorem C14_first_match_wins (k : Ver) : ∀ (cs : List Route) (i : Nat) (path : Path) (m : NMatch) (rem : Path),
+    matchChildren k cs i path = .some m rem →
+    ∃ j c, cs[j]? = some c ∧ matchNested k c (i + j) path = .some m rem ∧
+      m.chain.head?.map (·.1) = some (i + j) ∧
+      ∀ j' c', j' < j → cs[j']? = some c' → matchNested k c' (i + j') path = .none := by
+  intro cs
+  induction cs with
+  | nil => intro i path m rem h; simp [matchChildren] at h
+  | cons c cs ih =>
+    intro i path m rem h
+    simp only [matchChildren] at h
+    cases hc : matchNested k c i path with
+    | panic => rw [hc] at h; simp at h
+    | some m' rem' =>
+      rw [hc] at h; simp at h; obtain ⟨rfl, rfl⟩ := h
+      exact ⟨0, c, rfl, by simpa using hc, by simpa using nested_head_pos k c i path _ _ hc,
+        fun j' c' hj => absurd hj (Nat.not_lt_zero _)⟩
+    | none =>
+      rw [hc] at h; simp only at h
+      obtain ⟨j, c2, h1, h2, h3, h4⟩ := ih (i + 1) path m rem h
+      refine ⟨j + 1, c2, by simpa using h1, ?_, ?_, ?_⟩
+      · have : i + (j + 1) = i + 1 + j := by omega
+        rw [this]; exact h2
+      · have : i + (j + 1) = i + 1 + j := by omega
+        rw [this]; exact h3
+      · intro j' c' hj hc'
+        cases j' with
+        | zero => simp at hc'; subst hc'; simpa using hc
+        | succ j'' =>
+          have : i + (j'' + 1) = i + 1 + j'' := by omega
+          rw [this]
+          exact h4 j'' c' (by omega) (by simpa using hc')
+
+
+/-- **match ⇔ flat, general partial theorem** (was OPEN): for every well-formed route table without
+optional params — nested routes, sibling lists, arbitrarily nested tuples, static / param /
+wildcard-last segments, `""` and `"/"` segments, with or without base — and every request path on which
+the router behaves like its segment-aligned variant (`SegmentAligned`; after fix-c14-1..3 this only
+fails below a `"/"` segment, F-C14-2), the property's oracle accepts what the router does: a registered
+flat route accepts the path ⇒ the router matches; the router matches ⇒ a registered route of the
+winning definition accepts the path (one trailing `/` tolerated) with the same params and no earlier
+definition has a registered route that accepts it; no panic. -/
+theorem C14_match_iff_flat_partial_general (d : Defs) (path : Path) (hw : d.wf = true)
+    (hp : startsSlash path = true) (hn : noOptionalList d.tops = true) (hal : SegmentAligned d path) :
+    Holds d path := by
+  unfold Holds
+  rw [hal]
+  exact judge_aligned d hw hn path hp
+
+/-- the same without `SegmentAligned`, for the aligned variant itself: it satisfies the full statement
+on optional-free tables (so every remaining divergence of the real router on such tables is a
+divergence from its aligned variant) -/
+theorem C14_aligned_variant_holds (d : Defs) (path : Path) (hw : d.wf = true)
+    (hp : startsSlash path = true) (hn : noOptionalList d.tops = true) :
+    judge d path (matchRoute .aligned d path) = none := judge_aligned d hw hn path hp
+
+
+
+/-! # build then match, for nested routes -/
+
+theorem splatTest_slash' (fx : Bool) (n t : Path) : splatTest fx n ('/' :: t) = .some ⟨'/' :: t, [], [(n, t)]⟩ := by
+  have h1 : splitBytes ('/' :: t) (1 + bytes t) = some ('/' :: t, []) := by
+    have := splitBytes_bytes ('/' :: t) []
+    simpa [bytes, slash_size] using this
+  have h2 : sliceBytes ('/' :: t) 1 (bytes t + 1) = some t := by
+    unfold sliceBytes
+    have h3 : splitBytes ('/' :: t) 1 = some (['/'], t) := by
+      have := splitBytes_bytes ['/'] t
+      simpa [bytes, slash_size] using this
+    have h4 : splitBytes t (bytes t) = some (t, []) := by
+      have := splitBytes_bytes t []
+      simpa using this
+    simp [h3, h4]
+  unfold splatTest
+  simp [splatScan, h1, h2]
+
+theorem startOk_of_aligned (k : Ver) (p : Path) (h : Aligned p) : startOk k p = true := by
+  rcases h with h | h
+  · simp [startOk, h]
+  · simp [startOk, h]
+
+/-- a path built from well-formed atoms starts at a segment boundary -/
+theorem build_aligned : ∀ (F : List FSeg) (vals : List Path) (p : Path), (∀ f ∈ F, WfA f) →
+    (∀ v ∈ vals, GoodVal v) → buildPath F vals = some p → Aligned p := by
+  intro F
+  induction F with
+  | nil => intro vals p _ _ h; simp [buildPath] at h; exact Or.inl h
+  | cons f F ih =>
+    intro vals p hw hv h
+    have hf := hw f (by simp)
+    have hw' : ∀ g ∈ F, WfA g := fun x hx => hw x (by simp [hx])
+    cases f with
+    | st s =>
+      simp only [buildPath] at h
+      cases hb : buildPath F vals with
+      | none => simp [hb] at h
+      | some p' =>
+        rcases hf with hp | rfl | rfl
+        · obtain ⟨_, he, _⟩ := plain_facts hp
+          simp [hb, plain_not_startsSlash hp.2, he] at h
+          subst h; right; simp [startsSlash]
+        · simp [hb] at h; subst h; exact ih vals p' hw' hv hb
+        · simp [hb, startsSlash] at h; subst h; right; simp [startsSlash]
+    | param n =>
+      cases vals with
+      | nil => simp [buildPath] at h
+      | cons v vals =>
+        obtain ⟨_, hvs⟩ := hv v (by simp)
+        simp only [buildPath] at h
+        cases hb : buildPath F vals with
+        | none => simp [hb] at h
+        | some p' =>
+          simp [hb, plain_not_startsSlash hvs] at h
+          subst h; right; simp [startsSlash]
+    | splat n =>
+      cases vals with
+      | nil => simp [buildPath] at h
+      | cons v vals =>
+        obtain ⟨_, hvs⟩ := hv v (by simp)
+        simp only [buildPath] at h
+        cases hb : buildPath F vals with
+        | none => simp [hb] at h
+        | some p' =>
+          simp [hb, plain_not_startsSlash hvs] at h
+          subst h; right; simp [startsSlash]
+    | opt n => simp [WfA] at hf
+
+/-- the atoms of a flat route, run over the path built from them (followed by anything that starts a
+new segment), consume exactly the built part and yield the values — in every version of the code -/
+theorem seq_build (k : Ver) : ∀ (F : List FSeg) (vals : List Path) (p rest : Path), (∀ f ∈ F, WfA f) →
+    (∀ v ∈ vals, GoodVal v) → buildPath F vals = some p → vals.length = (paramNames F).length →
+    Aligned rest → (noSplat F = true ∨ (splatLast F = true ∧ rest = [])) →
+    seqTest k F (p ++ rest) = .some ⟨p, rest, (paramNames F).zip vals⟩ := by
+  intro F
+  induction F with
+  | nil =>
+    intro vals p rest _ _ h hl _ _
+    simp [buildPath] at h; subst h
+    simp [seqTest, paramNames]
+  | cons f F ih =>
+    intro vals p rest hw hv h hl hr hs
+    have hf := hw f (by simp)
+    have hw' : ∀ g ∈ F, WfA g := fun x hx => hw x (by simp [hx])
+    have hs' : noSplat F = true ∨ (splatLast F = true ∧ rest = []) := by
+      rcases hs with hs | ⟨hs, hr0⟩
+      · left; cases f <;> simp [noSplat] at hs ⊢ <;> exact hs
+      · right
+        refine ⟨?_, hr0⟩
+        cases F with
+        | nil => rfl
+        | cons g G => cases f <;> simp [splatLast] at hs ⊢ <;> exact hs
+    cases f with
+    | opt n => simp [WfA] at hf
+    | st s =>
+      simp only [buildPath] at h
+      cases hb : buildPath F vals with
+      | none => simp [hb] at h
+      | some p' =>
+        have hal : Aligned (p' ++ rest) := by
+          have := build_aligned F vals p' hw' hv hb
+          rcases this with h0 | h0
+          · subst h0; simpa using hr
+          · right; cases p' with
+            | nil => simp [startsSlash] at h0
+            | cons c t => simpa [startsSlash] using h0
+        have ih' := ih vals p' rest hw' hv hb (by simpa [paramNames] using hl) hr hs'
+        rcases hf with hp | rfl | rfl
+        · obtain ⟨_, he, _⟩ := plain_facts hp
+          simp [hb, plain_not_startsSlash hp.2, he] at h
+          subst h
+          have hst := staticTest_slash k.fixed s (p' ++ rest) hp
+          simp only [hal, not_true_eq_false, and_false, if_false, List.cons_append] at hst
+          simp only [seqTest, toSeg, Seg.test, List.cons_append, List.append_assoc, startOk, startsSlash,
+            decide_true, Bool.or_true, if_true, hst, ih']
+          simp [paramNames]
+        · simp [hb] at h; subst h
+          simp only [seqTest, toSeg, Seg.test, startOk_of_aligned k _ hal, if_true,
+            staticTest_empty _ _ hal, ih']
+          simp [paramNames]
+        · simp [hb, startsSlash] at h; subst h
+          simp only [seqTest, toSeg, Seg.test, List.cons_append, List.nil_append, startOk, startsSlash,
+            decide_true, Bool.or_true, if_true, staticTest_slashseg, ih']
+          simp [paramNames]
+    | param n =>
+      cases vals with
+      | nil => simp [buildPath] at h
+      | cons v vals =>
+        obtain ⟨hvne, hvs⟩ := hv v (by simp)
+        have hv' : ∀ x ∈ vals, GoodVal x := fun x hx => hv x (by simp [hx])
+        simp only [buildPath] at h
+        cases hb : buildPath F vals with
+        | none => simp [hb] at h
+        | some p' =>
+          simp [hb, plain_not_startsSlash hvs] at h
+          subst h
+          have hal : Aligned (p' ++ rest) := by
+            have := build_aligned F vals p' hw' hv' hb
+            rcases this with h0 | h0
+            · subst h0; simpa using hr
+            · right; cases p' with
+              | nil => simp [startsSlash] at h0
+              | cons c t => simpa [startsSlash] using h0
+          obtain ⟨h1, h2⟩ := segHead_append v (p' ++ rest) hvs hal
+          have hpt := paramTest_slash k.fixed n (v ++ (p' ++ rest))
+          simp only [h1, h2, hvne, if_false] at hpt
+          have ih' := ih vals p' rest hw' hv' hb (by simpa [paramNames] using hl) hr hs'
+          simp only [seqTest, toSeg, Seg.test, List.cons_append, List.append_assoc, startOk, startsSlash,
+            decide_true, Bool.or_true, if_true, hpt, ih']
+          simp [paramNames]
+    | splat n =>
+      rcases hs with hs | ⟨hs, hr0⟩
+      · simp [noSplat] at hs
+      · have hF : F = [] := by
+          cases F with
+          | nil => rfl
+          | cons g G => simp [splatLast] at hs
+        subst hF; subst hr0
+        cases vals with
+        | nil => simp [buildPath] at h
+        | cons v vals =>
+          obtain ⟨hvne, hvs⟩ := hv v (by simp)
+          have hvl : vals = [] := by
+            simp [paramNames] at hl
+            cases vals <;> simp at hl ⊢
+          subst hvl
+          simp [buildPath, plain_not_startsSlash hvs] at h
+          subst h
+          simp [seqTest, toSeg, Seg.test, startOk, startsSlash, splatTest_slash', paramNames]
+
+
+
+theorem paramNames_append (A B : List FSeg) : paramNames (A ++ B) = paramNames A ++ paramNames B := by
+  induction A with
+  | nil => rfl
+  | cons f A ih => cases f <;> simp [paramNames, ih]
+
+/-- a path built from `A ++ B` is the path built from `A` followed by the path built from `B`, each
+from its share of the values -/
+theorem build_append : ∀ (A B : List FSeg) (vals : List Path) (p : Path), (∀ f ∈ A, WfA f) →
+    buildPath (A ++ B) vals = some p → (paramNames A).length ≤ vals.length →
+    ∃ pa pb, buildPath A (vals.take (paramNames A).length) = some pa ∧
+      buildPath B (vals.drop (paramNames A).length) = some pb ∧ p = pa ++ pb := by
+  intro A
+  induction A with
+  | nil => intro B vals p _ h _; exact ⟨[], p, by simp [buildPath], by simpa [paramNames] using h, rfl⟩
+  | cons f A ih =>
+    intro B vals p hw h hl
+    have hf := hw f (by simp)
+    have hw' : ∀ g ∈ A, WfA g := fun x hx => hw x (by simp [hx])
+    cases f with
+    | opt n => simp [WfA] at hf
+    | st s =>
+      simp only [List.cons_append, buildPath] at h
+      cases hb : buildPath (A ++ B) vals with
+      | none => simp [hb] at h
+      | some p' =>
+        simp [hb] at h
+        obtain ⟨pa, pb, h1, h2, h3⟩ := ih B vals p' hw' hb (by simpa [paramNames] using hl)
+        refine ⟨(if startsSlash s || s.isEmpty then s else '/' :: s) ++ pa, pb, ?_, by simpa [paramNames] using h2, ?_⟩
+        · simp [buildPath, paramNames, h1]
+        · rw [← h, h3]; simp
+    | param n =>
+      cases vals with
+      | nil => simp [paramNames] at hl
+      | cons v vals =>
+        simp only [List.cons_append, buildPath] at h
+        cases hb : buildPath (A ++ B) vals with
+        | none => simp [hb] at h
+        | some p' =>
+          simp [hb] at h
+          obtain ⟨pa, pb, h1, h2, h3⟩ := ih B vals p' hw' hb (by simpa [paramNames] using hl)
+          refine ⟨(if startsSlash v then v else '/' :: v) ++ pa, pb, ?_, by simpa [paramNames] using h2, ?_⟩
+          · simp [buildPath, paramNames, h1]
+          · rw [← h, h3]; simp
+    | splat n =>
+      cases vals with
+      | nil => simp [paramNames] at hl
+      | cons v vals =>
+        simp only [List.cons_append, buildPath] at h
+        cases hb : buildPath (A ++ B) vals with
+        | none => simp [hb] at h
+        | some p' =>
+          simp [hb] at h
+          obtain ⟨pa, pb, h1, h2, h3⟩ := ih B vals p' hw' hb (by simpa [paramNames] using hl)
+          refine ⟨(if startsSlash v then v else '/' :: v) ++ pa, pb, ?_, by simpa [paramNames] using h2, ?_⟩
+          · simp [buildPath, paramNames, h1]
+          · rw [← h, h3]; simp
+
+mutual
+/-- at most one child at every level -/
+def Route.linear : Route → Bool
+  | .mk _ children => decide (children.length ≤ 1) && linearList children
+def linearList : List Route → Bool
+  | [] => true
+  | c :: cs => c.linear && linearList cs
+end
+
+/-- **build then match, nested** (the inductive core): for a nested route without siblings and without
+optional params, of any depth, the path built from its flat route and parameter values is matched,
+consumed completely level by level, and yields exactly those values — in every version of the code. -/
+theorem build_nested (k : Ver) : ∀ (r : Route), r.wf = true → r.noOptional = true → r.linear = true →
+    ∀ (F : List FSeg) (vals : List Path) (p : Path) (pos : Nat), r.gen = [F] → (∀ v ∈ vals, GoodVal v) →
+      buildPath F vals = some p → vals.length = (paramNames F).length →
+      ∃ m, matchNested k r pos p = .some m [] ∧ m.params = (paramNames F).zip vals ∧ chainCat m = p
+  | .mk segs [], hw, hn, _, F, vals, p, pos, hg, hv, hb, hl => by
+    simp only [Route.wf, Bool.and_eq_true, List.all_eq_true, decide_eq_true_eq] at hw
+    simp only [Route.noOptional, Bool.and_eq_true, Bool.not_eq_true'] at hn
+    have hat : ∀ f ∈ segs.gen, WfA f := fun f hf => wfa_of_wfao (hw.1.1 f hf) (gen_noOpt segs hn.1 f hf)
+    simp [Route.gen] at hg
+    subst hg
+    have hsb := seq_build k segs.gen vals p [] hat hv hb hl (Or.inl rfl) (Or.inr ⟨by simpa using hw.1.2, rfl⟩)
+    simp only [List.append_nil] at hsb
+    refine ⟨⟨[(pos, p)], (paramNames segs.gen).zip vals⟩, ?_, rfl, by simp [chainCat]⟩
+    simp [matchNested, flatten_test k segs p hn.1, hsb, finish, complete]
+  | .mk segs [c], hw, hn, hlin, F, vals, p, pos, hg, hv, hb, hl => by
+    simp only [Route.wf, Bool.and_eq_true, List.all_eq_true, decide_eq_true_eq, wfList] at hw
+    simp only [Route.noOptional, Bool.and_eq_true, Bool.not_eq_true', noOptionalList] at hn
+    simp only [Route.linear, linearList, Bool.and_eq_true] at hlin
+    have hat : ∀ f ∈ segs.gen, WfA f := fun f hf => wfa_of_wfao (hw.1.1 f hf) (gen_noOpt segs hn.1 f hf)
+    -- the child has exactly one flat route
+    simp only [Route.gen, List.isEmpty_cons, Bool.false_eq_true, if_false, genList, List.append_nil] at hg
+    cases hcg : c.gen with
+    | nil => rw [hcg] at hg; simp [prefixAll] at hg
+    | cons G rest =>
+      rw [hcg] at hg
+      cases rest with
+      | cons G2 r2 => simp [prefixAll] at hg
+      | nil =>
+        simp [prefixAll] at hg
+        subst hg
+        have hl' : (paramNames segs.gen).length ≤ vals.length := by
+          rw [hl, paramNames_append]; simp
+        obtain ⟨pa, pb, h1, h2, h3⟩ := build_append segs.gen G vals p hat hb hl'
+        subst h3
+        have hGok := flats_ok c hw.2.1 hn.2.1 G (by simp [hcg])
+        have hv1 : ∀ v ∈ vals.take (paramNames segs.gen).length, GoodVal v :=
+          fun v hv' => hv v (List.mem_of_mem_take hv')
+        have hv2 : ∀ v ∈ vals.drop (paramNames segs.gen).length, GoodVal v :=
+          fun v hv' => hv v (List.mem_of_mem_drop hv')
+        have hpb := build_aligned G _ pb hGok.1 hv2 h2
+        have hsb := seq_build k segs.gen _ pa pb hat hv1 h1 (by simp [List.length_take]; omega) hpb
+          (Or.inl (by simpa using hw.1.2))
+        obtain ⟨m', hm1, hm2, hm3⟩ := build_nested k c hw.2.1 hn.2.1 hlin.2.1 G _ pb 0 hcg hv2 h2
+          (by rw [paramNames_append] at hl; simp [List.length_drop, hl])
+        refine ⟨⟨(pos, pa) :: m'.chain, (paramNames segs.gen).zip (vals.take (paramNames segs.gen).length) ++ m'.params⟩,
+          ?_, ?_, ?_⟩
+        · simp [matchNested, flatten_test k segs _ hn.1, hsb, matchChildren, hm1, finish, complete]
+        · rw [hm2, paramNames_append]
+          have : vals = vals.take (paramNames segs.gen).length ++ vals.drop (paramNames segs.gen).length := by simp
+          conv => rhs; rw [this]
+          rw [List.zip_append (by simp [List.length_take]; omega)]
+        · simp only [chainCat, List.map_cons, List.flatten_cons]
+          simp only [chainCat] at hm3
+          rw [hm3]
+  | .mk segs (c1 :: c2 :: cs), _, _, hlin, _, _, _, _, _, _, _, _ => by
+    simp [Route.linear] at hlin
+
+/-- **build then match, nested routes**: a route table consisting of one nested route of any depth
+(one child per level, no optional params): the path built from its registered flat route and the given
+parameter values (non-empty, `/`-free) matches, and returns exactly those values. -/
+theorem C14_build_then_match_nested (r : Route) (hw : r.wf = true) (hn : r.noOptional = true)
+    (hlin : r.linear = true) (F : List FSeg) (vals : List Path) (p : Path) (hg : r.gen = [F])
+    (hv : ∀ v ∈ vals, GoodVal v) (hb : buildPath F vals = some p) (hl : vals.length = (paramNames F).length) :
+    ∃ m, matchRoute .cur ⟨none, [r]⟩ p = .some m ∧ m.params = (paramNames F).zip vals ∧ chainCat m = p := by
+  obtain ⟨m, h1, h2, h3⟩ := build_nested .cur r hw hn hlin F vals p 0 hg hv hb hl
+  exact ⟨m, by simp [matchRoute, stripBase, matchChildren, h1, complete], h2, h3⟩
+
+
+
+theorem firstG_of_mem (Gs : List (List FSeg)) (G : List FSeg) (p : Path) (q : Params) (hG : G ∈ Gs)
+    (h : gmatch G p = some q) : ∃ q', firstG Gs p = some q' := by
+  induction Gs with
+  | nil => simp at hG
+  | cons X Gs ih =>
+    simp only [firstG]
+    cases hx : gmatch X p with
+    | some q' => exact ⟨q', rfl⟩
+    | none =>
+      simp only [List.mem_cons] at hG
+      rcases hG with rfl | hG
+      · rw [h] at hx; simp at hx
+      · exact ih hG
+
+theorem firstDefT_le : ∀ (T : List (List (List FSeg))) (i0 i : Nat) (p : Path) (Gs : List (List FSeg)) (q : Params),
+    T[i]? = some Gs → firstG Gs p = some q → ∃ j ps, firstDefT T i0 p = some (j, ps) ∧ j ≤ i0 + i := by
+  intro T
+  induction T with
+  | nil => intro i0 i p Gs q h _; simp at h
+  | cons X T ih =>
+    intro i0 i p Gs q h hq
+    simp only [firstDefT]
+    cases hx : firstG X p with
+    | some ps => exact ⟨i0, ps, rfl, by omega⟩
+    | none =>
+      cases i with
+      | zero => simp at h; subst h; rw [hq] at hx; simp at hx
+      | succ i' =>
+        obtain ⟨j, ps, h1, h2⟩ := ih (i0 + 1) i' p Gs q (by simpa using h) hq
+        exact ⟨j, ps, h1, by omega⟩
+
+theorem mem_prefixAll_of_mem (a : List FSeg) (Xs : List (List FSeg)) (F : List FSeg) (hF : F ∈ Xs) :
+    a ++ F ∈ prefixAll a Xs := by
+  induction Xs with
+  | nil => simp at hF
+  | cons X Xs ih =>
+    simp only [prefixAll, List.mem_cons] at hF ⊢
+    rcases hF with rfl | hF
+    · left; rfl
+    · right; exact ih hF
+
+/-- a path built from a registered flat route is accepted by that route on the router side -/
+theorem gmatch_build (G : List FSeg) (vals : List Path) (p : Path) (hok : FlatOk G)
+    (hv : ∀ v ∈ vals, GoodVal v) (hb : buildPath G vals = some p) (hl : vals.length = (paramNames G).length) :
+    gmatch G p = some ((paramNames G).zip vals) := by
+  have hsb := seq_build .aligned G vals p [] hok.1 hv hb hl (Or.inl rfl) (Or.inr ⟨hok.2, rfl⟩)
+  simp only [List.append_nil] at hsb
+  have := seq_aligned G hok.1 p
+  rw [hsb] at this
+  cases hs : seqSpec G p with
+  | none => simp [hs, Out.rp, ofOpt] at this
+  | some x =>
+    obtain ⟨r, ps⟩ := x
+    simp [hs, Out.rp, ofOpt] at this
+    simp [gmatch, hs, ← this.1, ← this.2, complete]
+
+/-- **build then match, whole tables** (siblings, nesting, base; no optional params): the path built
+from the `i`-th definition's registered route `base ++ F` and parameter values is matched by the
+aligned variant of the router — by definition `i` or an earlier one that also accepts it (declaration
+order); with `SegmentAligned` the same holds for the router as it is. -/
+theorem C14_build_then_match_table (d : Defs) (hw : d.wf = true) (hn : noOptionalList d.tops = true)
+    (i : Nat) (t : Route) (F : List FSeg) (vals : List Path) (p : Path) (ht : d.tops[i]? = some t)
+    (hF : F ∈ t.gen) (hv : ∀ v ∈ vals, GoodVal v) (hb : buildPath (normBase d.base ++ F) vals = some p)
+    (hl : vals.length = (paramNames (normBase d.base ++ F)).length) (hp : startsSlash p = true) :
+    ∃ j ps, j ≤ i ∧ mres (matchRoute .aligned d p) = .some (some j, ps) ∧
+      (SegmentAligned d p → mres (matchRoute .cur d p) = .some (some j, ps)) := by
+  have hmem : t ∈ d.tops := List.mem_of_getElem? ht
+  have hGs : prefixAll (normBase d.base) t.gen ∈ tab d := by
+    simp only [tab, List.mem_map]; exact ⟨t, hmem, rfl⟩
+  have hGin : normBase d.base ++ F ∈ prefixAll (normBase d.base) t.gen := mem_prefixAll_of_mem _ _ _ hF
+  have hok := tab_ok d hw hn _ hGs _ hGin
+  have hgm := gmatch_build _ vals p hok hv hb hl
+  obtain ⟨q', hq'⟩ := firstG_of_mem _ _ p _ hGin hgm
+  have hidx : (tab d)[i]? = some (prefixAll (normBase d.base) t.gen) := by
+    simp [tab, List.getElem?_map, ht]
+  obtain ⟨j, ps, h1, h2⟩ := firstDefT_le (tab d) 0 i p _ q' hidx hq'
+  have hr := route_aligned d hw hn p hp
+  rw [h1] at hr
+  exact ⟨j, ps, by omega, hr, fun hal => by rw [hal]; exact hr⟩
+
+
+
+/-! # optional-free tables without `"/"` segments: the full statement holds (exactness of `slash-parent`) -/
+
+def notSlash : FSeg → Bool
+  | .st s => decide (s ≠ ['/'])
+  | _ => true
+
+mutual
+/-- no route has a `"/"` static segment -/
+def Route.noSlashSeg : Route → Bool
+  | .mk segs children => segs.gen.all notSlash && noSlashSegList children
+def noSlashSegList : List Route → Bool
+  | [] => true
+  | c :: cs => c.noSlashSeg && noSlashSegList cs
+end
+
+/-- every atom but `"/"` hands on a remainder that starts a new segment -/
+theorem atomSpec_aligned (f : FSeg) (hns : notSlash f = true) (path r : Path) (ps : Params)
+    (h : atomSpec f path = some (r, ps)) : Aligned r := by
+  cases path with
+  | nil =>
+    cases f with
+    | st s => simp only [atomSpec] at h; split at h <;> simp at h; exact Or.inl (by rw [← h.1])
+    | param n => simp [atomSpec] at h
+    | splat n => simp [atomSpec] at h; exact Or.inl (by rw [← h.1])
+    | opt n => simp [atomSpec] at h
+  | cons c t =>
+    cases f with
+    | st s =>
+      have hs : s ≠ ['/'] := by simpa [notSlash] using hns
+      simp only [atomSpec] at h
+      split at h
+      · next hc =>
+        subst hc
+        split at h
+        · simp at h; rw [← h.1]; right; simp [startsSlash]
+        · split at h
+          · simp at h; rw [← h.1]; exact segTail_aligned t
+          · simp at h
+      · simp at h
+    | param n =>
+      simp only [atomSpec] at h
+      split at h
+      · simp at h; rw [← h.1]; exact segTail_aligned t
+      · simp at h
+    | splat n =>
+      simp only [atomSpec] at h
+      split at h
+      · simp at h; exact Or.inl (by rw [← h.1])
+      · simp at h
+    | opt n => simp [atomSpec] at h
+
+/-- on a path that starts a segment, the atom tests of the code as it is and of its aligned variant coincide -/
+theorem atom_cur_eq_aligned (f : FSeg) (path : Path) (hp : Aligned path) :
+    (toSeg f).test .cur path = (toSeg f).test .aligned path := by
+  have h1 := startOk_of_aligned .cur path hp
+  have h2 := startOk_of_aligned .aligned path hp
+  cases f <;> simp [toSeg, Seg.test, h1, h2, Ver.fixed]
+
+theorem seq_cur_eq_aligned : ∀ (F : List FSeg), (∀ f ∈ F, WfA f) → (∀ f ∈ F, notSlash f = true) →
+    ∀ path : Path, Aligned path → seqTest .cur F path = seqTest .aligned F path := by
+  intro F
+  induction F with
+  | nil => intro _ _ path _; rfl
+  | cons f F ih =>
+    intro hw hns path hp
+    have hat := atom_aligned f (hw f (by simp)) path
+    simp only [seqTest, atom_cur_eq_aligned f path hp]
+    cases ht : (toSeg f).test .aligned path with
+    | panic => rfl
+    | none => rfl
+    | some m =>
+      rw [ht] at hat
+      cases hsp : atomSpec f path with
+      | none => simp [hsp, Out.rp, ofOpt] at hat
+      | some x =>
+        obtain ⟨r, ps⟩ := x
+        simp [hsp, Out.rp, ofOpt] at hat
+        have hal : Aligned m.remaining := by
+          rw [hat.1]; exact atomSpec_aligned f (hns f (by simp)) path r ps hsp
+        simp only
+        rw [ih (fun x hx => hw x (by simp [hx])) (fun x hx => hns x (by simp [hx])) m.remaining hal]
+
+theorem seqTest_rem_aligned : ∀ (F : List FSeg), (∀ f ∈ F, WfA f) → (∀ f ∈ F, notSlash f = true) →
+    ∀ (path : Path) (m : PM), Aligned path → seqTest .aligned F path = .some m → Aligned m.remaining := by
+  intro F
+  induction F with
+  | nil => intro _ _ path m hp h; simp [seqTest] at h; subst h; exact hp
+  | cons f F ih =>
+    intro hw hns path m hp h
+    have hat := atom_aligned f (hw f (by simp)) path
+    simp only [seqTest] at h
+    cases ht : (toSeg f).test .aligned path with
+    | panic => simp [ht] at h
+    | none => simp [ht] at h
+    | some m1 =>
+      rw [ht] at hat
+      simp only [ht] at h
+      cases hsp : atomSpec f path with
+      | none => simp [hsp, Out.rp, ofOpt] at hat
+      | some x =>
+        obtain ⟨r, ps⟩ := x
+        simp [hsp, Out.rp, ofOpt] at hat
+        have hal : Aligned m1.remaining := by
+          rw [hat.1]; exact atomSpec_aligned f (hns f (by simp)) path r ps hsp
+        cases hs2 : seqTest .aligned F m1.remaining with
+        | panic => simp [hs2] at h
+        | none => simp [hs2] at h
+        | some m2 =>
+          simp [hs2] at h; subst h
+          exact ih (fun x hx => hw x (by simp [hx])) (fun x hx => hns x (by simp [hx])) _ m2 hal hs2
+
+mutual
+theorem nested_cur_eq_aligned : ∀ (r : Route), r.good = true → r.noSlashSeg = true → ∀ (pos : Nat) (path : Path),
+    Aligned path → matchNested .cur r pos path = matchNested .aligned r pos path
+  | .mk segs children, hg, hns, pos, path, hp => by
+    simp only [Route.good, Bool.and_eq_true, Bool.not_eq_true', List.all_eq_true, decide_eq_true_eq] at hg
+    obtain ⟨⟨hopt, hwf⟩, hch⟩ := hg
+    simp only [Route.noSlashSeg, Bool.and_eq_true, List.all_eq_true] at hns
+    have hseq := seq_cur_eq_aligned segs.gen hwf hns.1 path hp
+    simp only [matchNested, flatten_test .cur segs path hopt, flatten_test .aligned segs path hopt, hseq]
+    cases hT : seqTest .aligned segs.gen path with
+    | panic => rfl
+    | none => rfl
+    | some pm =>
+      have hal := seqTest_rem_aligned segs.gen hwf hns.1 path pm hp hT
+      simp only [children_cur_eq_aligned children hch hns.2 0 pm.remaining hal, hopt]
+      rfl
+theorem children_cur_eq_aligned : ∀ (cs : List Route), goodList cs = true → noSlashSegList cs = true →
+    ∀ (i : Nat) (path : Path), Aligned path → matchChildren .cur cs i path = matchChildren .aligned cs i path
+  | [], _, _, i, path, _ => by simp [matchChildren]
+  | c :: cs, hg, hns, i, path, hp => by
+    simp only [goodList, Bool.and_eq_true] at hg
+    simp only [noSlashSegList, Bool.and_eq_true] at hns
+    simp only [matchChildren, nested_cur_eq_aligned c hg.1 hns.1 i path hp,
+      children_cur_eq_aligned cs hg.2 hns.2 (i + 1) path hp]
+end
+
+theorem dropSlashes_plain (s : Path) (h : '/' ∉ s) : dropSlashes s = s := by
+  cases s with
+  | nil => rfl
+  | cons c s =>
+    have : c ≠ '/' := by intro e; apply h; simp [e]
+    simp [dropSlashes, this]
+
+theorem stripBase_cur_eq_aligned (b : Option Path) (hb : baseOk b = true) (path : Path)
+    (hp : startsSlash path = true) : stripBase .cur b path = stripBase .aligned b path := by
+  cases path with
+  | nil => simp [startsSlash] at hp
+  | cons c t =>
+    have hc : c = '/' := by simpa [startsSlash] using hp
+    subst hc
+    match b, hb with
+    | none, _ => rfl
+    | some [], _ => simp [stripBase, startsSlash, stripPrefix]
+    | some (c :: s), hb =>
+      simp [baseOk] at hb
+      obtain ⟨rfl, hpl⟩ := hb
+      have he : s.isEmpty = false := (plain_facts hpl).2.1
+      simp only [stripBase, startsSlash, decide_true, if_true, dropSlashes, dropSlashes_plain s hpl.2,
+        dropOneSlash, stripPrefix, he, Bool.false_or]
+      cases stripPrefix s t <;> rfl
+
+theorem stripBase_aligned_rem (b : Option Path) (path p : Path) (hp : startsSlash path = true)
+    (h : stripBase .aligned b path = some p) : Aligned p := by
+  cases b with
+  | none => simp [stripBase] at h; subst h; exact Or.inr hp
+  | some b =>
+    simp only [stripBase] at h
+    cases hs : stripPrefix b path with
+    | none => simp [hs] at h
+    | some r =>
+      simp only [hs] at h
+      split at h
+      · next hc =>
+        simp at h; subst h
+        simp only [Bool.or_eq_true] at hc
+        rcases hc with hc | hc
+        · left; cases r <;> simp at hc ⊢
+        · right; exact hc
+      · simp at h
+
+/-- **no `"/"` segment, no optional params ⇒ always aligned**: on such tables the router never tests a
+segment in the middle of a path segment (after fix-c14-1..3) -/
+theorem C14_aligned_without_slash_segments (d : Defs) (hw : d.wf = true) (hn : noOptionalList d.tops = true)
+    (hns : noSlashSegList d.tops = true) (path : Path) (hp : startsSlash path = true) :
+    SegmentAligned d path := by
+  simp only [Defs.wf, Bool.and_eq_true, Bool.not_eq_true'] at hw
+  obtain ⟨⟨hb, hwl⟩, _⟩ := hw
+  have hg := goodList_of_wf d.tops hwl hn
+  unfold SegmentAligned matchRoute
+  rw [stripBase_cur_eq_aligned d.base hb path hp]
+  cases hsb : stripBase .aligned d.base path with
+  | none => rfl
+  | some p =>
+    have hal := stripBase_aligned_rem d.base path p hp hsb
+    simp only [children_cur_eq_aligned d.tops hg hns 0 p hal]
+
+/-- **match ⇔ flat, full statement on optional-free tables without `"/"` segments** — unconditional:
+every well-formed table built from static / param / wildcard-last segments (nested, siblings, nested
+tuples, `""` segments, base) satisfies the property on every request path.  Hence every failure on an
+optional-free table needs a `"/"` segment (class `slash-parent`, F-C14-2) and is `¬SegmentAligned`. -/
+theorem C14_match_iff_flat_optional_free (d : Defs) (path : Path) (hw : d.wf = true)
+    (hp : startsSlash path = true) (hn : noOptionalList d.tops = true) (hns : noSlashSegList d.tops = true) :
+    Holds d path :=
+  C14_match_iff_flat_partial_general d path hw hp hn (C14_aligned_without_slash_segments d hw hn hns path hp)
+
+/-- exactness of the class `slash-parent` on optional-free tables: a failure implies a `"/"` segment
+in the table and a path on which the router leaves the segment grid -/
+theorem C14_slash_parent_exact (d : Defs) (path : Path) (hw : d.wf = true) (hp : startsSlash path = true)
+    (hn : noOptionalList d.tops = true) (hfail : ¬ Holds d path) :
+    noSlashSegList d.tops = false ∧ ¬ SegmentAligned d path := by
+  constructor
+  · cases h : noSlashSegList d.tops with
+    | false => rfl
+    | true => exact absurd (C14_match_iff_flat_optional_free d path hw hp hn h) hfail
+  · intro hal
+    exact hfail (C14_match_iff_flat_partial_general d path hw hp hn hal)
+
 /-! ## non-vacuity: every hypothesis above is satisfiable (and the conclusions are not trivially empty) -/
 
 -- C14_partition: a nested tuple with an optional that is backed off
@@ -1855,5 +4275,49 @@ example : (∀ f ∈ [FSeg.st ['a'], FSeg.param ['i', 'd'], FSeg.st ['é']], Sim
 example : expandOptionals [.opt ['a'], .opt ['b'], .st ['c']] =
     [[.param ['a'], .param ['b'], .st ['c']], [.param ['a'], .st ['c']], [.param ['b'], .st ['c']], [.st ['c']]] := by
   decide
+
+
+-- C14_match_iff_flat_partial_general: hypotheses satisfiable on a table with a base, a `""` root with
+-- children, a nested tuple with a unit, a wildcard leaf and two top-level definitions; the conclusion is
+-- then a fact about a path that matches through all of them
+def richDefs : Defs :=
+  ⟨some ['/', 'b'],
+   [.mk (.st []) [.mk (.tup [.tup [], .tup [.st ['a'], .param ['i']]]) [], .mk (.tup [.st ['f'], .splat ['w']]) []],
+    .mk (.param ['p']) []]⟩
+
+example : richDefs.wf = true ∧ noOptionalList richDefs.tops = true ∧
+    startsSlash ['/', 'b', '/', 'a', '/', 'x'] = true ∧ SegmentAligned richDefs ['/', 'b', '/', 'a', '/', 'x'] ∧
+    matchRoute .cur richDefs ['/', 'b', '/', 'a', '/', 'x'] =
+      .some ⟨[(0, []), (0, ['/', 'a', '/', 'x'])], [(['i'], ['x'])]⟩ ∧
+    matchRoute .cur richDefs ['/', 'b', '/', 'f', '/', 'x', '/', 'y'] =
+      .some ⟨[(0, []), (1, ['/', 'f', '/', 'x', '/', 'y'])], [(['w'], ['x', '/', 'y'])]⟩ ∧
+    matchRoute .cur richDefs ['/', 'b', '/', 'z'] = .some ⟨[(1, ['/', 'z'])], [(['p'], ['z'])]⟩ := by decide
+
+-- C14_tuple_nesting_flattens / C14_first_match_wins: hypotheses satisfiable
+example : (Seg.tup [.tup [], .tup [.st ['a'], .param ['i']]]).optional = false ∧
+    (Seg.tup [.tup [], .tup [.st ['a'], .param ['i']]]).gen = [.st ['a'], .param ['i']] := by decide
+
+example : matchChildren .cur richDefs.tops 0 ['/', 'z'] = .some ⟨[(1, ['/', 'z'])], [(['p'], ['z'])]⟩ [] := by decide
+
+
+-- C14_build_then_match_nested: hypotheses satisfiable on a three-level route with a "/" child and a wildcard leaf
+def chain3 : Route :=
+  .mk (.tup [.st ['a'], .param ['i']]) [.mk (.st ['/']) [.mk (.tup [.st ['b'], .splat ['w']]) []]]
+
+example : chain3.wf = true ∧ chain3.noOptional = true ∧ chain3.linear = true ∧
+    chain3.gen = [[.st ['a'], .param ['i'], .st ['/'], .st ['b'], .splat ['w']]] ∧
+    buildPath [.st ['a'], .param ['i'], .st ['/'], .st ['b'], .splat ['w']] [['x'], ['y']] =
+      some ['/', 'a', '/', 'x', '/', '/', 'b', '/', 'y'] ∧
+    matchRoute .cur ⟨none, [chain3]⟩ ['/', 'a', '/', 'x', '/', '/', 'b', '/', 'y'] =
+      .some ⟨[(0, ['/', 'a', '/', 'x']), (0, ['/']), (0, ['/', 'b', '/', 'y'])], [(['i'], ['x']), (['w'], ['y'])]⟩ := by
+  decide
+
+
+-- C14_match_iff_flat_optional_free: hypotheses satisfiable (the rich table has no "/" segment), and
+-- C14_slash_parent_exact is not vacuous: the F-C14-2 table fails exactly as it says
+example : richDefs.wf = true ∧ noOptionalList richDefs.tops = true ∧ noSlashSegList richDefs.tops = true := by decide
+
+example : slashParent.wf = true ∧ noOptionalList slashParent.tops = true ∧ ¬ Holds slashParent ['/', 'a'] ∧
+    noSlashSegList slashParent.tops = false ∧ ¬ SegmentAligned slashParent ['/', 'a'] := by decide
 
 end Leptos.Router
